@@ -13,9 +13,23 @@ PidConfig field names, mju_clip, and the mjpPlugin callback slots):
                 a value handed to plugin code that cannot be followed is ANALYSIS-ERROR.
   R-SIBLING     the integral expression, its complete guard (nested view: early exits folded into if/else) and the
                 clip are identical (modulo local names) in all those methods (ActDot / Compute).
-  R-TABLE       the state-slot layout agrees between the slot counter (ActDim), the reader (GetState) and the writer
-                of the derivative (ActDot): same sequence of configuration guards, one index step per slot, and the
-                slot GetState stores into State.integral is the one ActDot derives from the integral.
+  R-TABLE       the activation-slot layout, decided symbolically: every registered callback that reaches d->act /
+                d->act_dot is interpreted abstractly (SlotInterp: integers are linear forms over actuator_actadr[id],
+                actuator_actnum[id], ...; running indices, locals, helper functions, methods, pointers into d->act,
+                ?:, switch, early returns are all evaluated, not matched) for every combination of the configuration
+                predicates the code tests (integral gain nonzero, slewmax present, imax present) and every mjtDyn
+                enumerator.  The size contract is derived, not assumed: the accepting paths of Pid::Create pin
+                actuator_actnum; the count demanded for dyntype none is the number of the plugin's OWN slots, the
+                surplus for another dyntype is the native slot the engine appends, and for those dyntypes
+                mj_fwdActuation (the engine function that afterwards calls the actuator_act_dot callbacks) must write
+                act_dot at an index counted from the end of the block (actadr + actnum - 1; the site is cited).
+                Demanded for every combination Create accepts: each State field loaded from d->act and each d->act_dot
+                write uses slot actadr + k with 0 <= k < own (in particular never the native slot actadr+actnum-1),
+                different State fields use different slots, a State field is loaded from one slot only, the slot a
+                derivative is written to is the slot its State field is loaded from (the write's role is the State
+                field its value is computed from, followed through calls), a raw d->act[j] read inside the write is the
+                slot written, and every loaded slot is advanced by some act_dot write.  The ORDER of the own slots is
+                not demanded (no documented contract fixes it; loader and writer agreeing is what matters).
   R-WHO-WRITES  the mjData / mjModel fields each registered callback can write (field-level mod events over the
                 callback lambda and everything it calls inside the plugin TU; mjData passed whole only to engine
                 functions with a listed effect) are within the allowed set of that callback.
@@ -23,11 +37,24 @@ PidConfig field names, mju_clip, and the mjpPlugin callback slots):
                 matching address array (actuator_ctrladr / actuator_outadr / actuator_actadr, read from
                 MJMODEL_REFERENCES in engine_io.c) or from a loop bounded by that dimension; an array of nactuator
                 rows is not indexed by a loop bounded by another dimension.
-Not decided: the arithmetic of the PID law; zero force of the cable in its stress-free configuration (QuatDiff /
-LocalStress algebra); numerical effects of clipping.
+  R-BOUNDS-AGREE  cable: in the difference omega - omega0 (found by role: a difference of two vector elements of which
+                one is a bounded rotation vector) both operands have the same least upper bound of the norm.  The
+                bounds come from an interval interpretation (NormInterp) of the plugin code and of the bodies of the
+                engine functions that produce the operands (mju_quat2Vel; mju_subQuat -> mji_quat2Vel for the member
+                the constructor fills), with summaries only for the leaf primitives in _LEAF; affine maps with constant
+                factors and threshold conditionals on one variable are evaluated exactly, anything else is marked
+                inexact.  Bounds that differ and are both exact are a VIOLATION (a rotation angle in between yields a
+                non-zero stress in the stress-free configuration); bounds that differ but are inexact, or an operand
+                that cannot be bounded, are ANALYSIS-ERROR.
+The setpoint functions of R-MUSTPASS are found by role (Pid methods that read State.previous_ctrl and return a value); a
+procedure that reads it (the act_dot callback forming the slew state's derivative) is not one.
+Not decided: the arithmetic of the PID law; that the two curvature maps are the same map beyond their norm bound (zero
+force of the cable in its stress-free configuration in full); the order of the plugin's own activation slots;
+numerical effects of clipping.
 """
 from __future__ import annotations
 
+import itertools
 import os
 import re
 
@@ -438,42 +465,6 @@ def _integral_sites(fn, prev):
     return out
 
 
-def _guards_of(fn, target):
-    """Conditions of the if statements enclosing `target` (outermost first), with polarity."""
-    path = []
-
-    def rec(n, guards):
-        if n is target:
-            path.append(list(guards))
-            return True
-        if n is None:
-            return False
-        if n.get("k") == "IfStmt":
-            c = list(cir.kids(n))
-            idx = (1 if n.get("hasInit") else 0) + (1 if n.get("hasVar") else 0)
-            cond = c[idx]
-            for j, ch in enumerate(c):
-                if j < idx:
-                    if rec(ch, guards):
-                        return True
-                elif j == idx:
-                    if rec(ch, guards):
-                        return True
-                elif j == idx + 1:
-                    if rec(ch, guards + [(cond, True)]):
-                        return True
-                else:
-                    if rec(ch, guards + [(cond, False)]):
-                        return True
-            return False
-        for ch in cir.kids(n):
-            if rec(ch, guards):
-                return True
-        return False
-    rec(fn, [])
-    return path[0] if path else []
-
-
 def _is_indirect_call(n):
     """A call through a callable object, function pointer or std::function (its target is not known statically)."""
     if not cir.is_call(n) or n.get("lam"):
@@ -611,13 +602,22 @@ def clip_rules(res, pid):
     res.count("integral_siblings", len(sib))
 
     # ---- slew limit
+    # the setpoint functions, by role: the Pid methods that read the previous setpoint and *return a value*.  A method
+    # that returns nothing and reads State.previous_ctrl (the act_dot callback forming the slew state's derivative
+    # from it) yields no setpoint; it is only required not to build the setpoint itself from d->ctrl (then the rule
+    # would have nothing to follow: cannot decide).
     users = []
     for f in pid.fns("Pid"):
         v = pid.view(f)
         if any(_is_state_member(x, STATE_PREV) for x in cxx3.walk_outer(v.fn)) and not _writes_state(v.fn, STATE_PREV):
-            users.append((f, v))
+            if _returns_value(f.node):
+                users.append((f, v))
+            elif any((modref.root_field(x) or (None, None))[:2] == ("mjData", "ctrl") for x in cxx3.walk_outer(v.fn)
+                     if x.get("k") in ("ArraySubscriptExpr", "MemberExpr")):
+                raise AnalysisError(f"{f.key} reads d->ctrl and State::{STATE_PREV} but returns nothing: the setpoint is "
+                                    f"formed in a procedure, the slew limit cannot be followed there")
     if not users:
-        raise AnalysisError(f"no Pid method reads State::{STATE_PREV} (anchor moved)")
+        raise AnalysisError(f"no Pid method that returns a value reads State::{STATE_PREV} (anchor moved)")
     for f in pid.fns():
         for x in cir.walk(f.node):
             if _is_state_member(x, STATE_PREV) and not any(x.get("line") == y.get("line") for g in pid.fns("Pid")
@@ -636,6 +636,12 @@ def clip_rules(res, pid):
             res.bad("R-MUSTPASS", c, r["file"], r["line"], f"{f.key}: {r['msg']}")
         else:
             res.ok("R-MUSTPASS", c, {"returns": rule.returns, "clips": rule.clips})
+
+
+def _returns_value(fn_node):
+    """The function's return type is not void (read from its type string `R (params)`)."""
+    t = (fn_node.get("t") or "").split("(")[0].strip()
+    return bool(t) and t != "void"
 
 
 def _writes_state(fn, name):
@@ -811,40 +817,6 @@ class _SlewRule(cxx3.XRule):
 # R-TABLE: state slots
 
 
-def _cfg_keys(expr, fn, pid, attr2field, depth=0):
-    """Configuration keys an expression depends on: PidConfig field names (through config members, through the
-    attribute constants the static helpers read, through locals and one level of helper calls)."""
-    out = set()
-    defs = cxx3.local_defs(fn.node)
-    todo = [expr]
-    seen = set()
-    while todo:
-        e = todo.pop()
-        if e is None or id(e) in seen:
-            continue
-        seen.add(id(e))
-        for x in cir.walk(e):
-            k = x.get("k")
-            if k == "MemberExpr":
-                ch = cxx3.member_chain(x)
-                if ch and len(ch) >= 2 and ch[-1] in attr2field.values() and "config" in ch[-2]:
-                    out.add(ch[-1])
-            elif k == "DeclRefExpr":
-                r = x.get("ref") or {}
-                if r.get("k") == "VarDecl" and r.get("n") in attr2field:
-                    out.add(attr2field[r["n"]])
-                elif r.get("k") in ("VarDecl", "ParmVarDecl") and r.get("id") in defs:
-                    todo.extend(defs[r["id"]])
-            if cir.is_call(x) and depth < 2:
-                info = cxx3.callee_info(x)
-                for g in pid.resolver.targets(info, pid.rel, cxx3.call_nargs(x)) if info else []:
-                    if g.file == pid.rel and g.node is not fn.node:
-                        for rs in cir.walk(g.node):
-                            if rs.get("k") == "ReturnStmt":
-                                out |= _cfg_keys(rs, g, pid, attr2field, depth + 1)
-    return out
-
-
 def _attr_map(pid):
     """{attribute constant name: PidConfig field} from the assignments of PidConfig::FromModel."""
     f = pid.fn("PidConfig", "FromModel")
@@ -883,153 +855,1215 @@ def _attr_map(pid):
     return out
 
 
-def _guard_stack_keys(fn, target, pid, a2f):
-    keys = []
-    for cond, pol in _guards_of(fn.node, target):
-        ks = _cfg_keys(cond, fn, pid, a2f)
-        if ks:
-            keys.append((tuple(sorted(ks)), pol))
-    return tuple(keys)
+# ---- symbolic evaluation of the activation-slot layout
+#
+# The plugin keeps its controller states in the actuator's activation block d->act[actadr .. actadr+actnum).  Which
+# slot holds which state is decided here by *evaluating* the code, not by matching how it is written: every callback
+# that reaches d->act / d->act_dot is interpreted abstractly (integers as linear forms over actuator_actadr[id],
+# actuator_actnum[id], ...; the configuration through the predicates "field is nonzero" / "optional has a value", which
+# are enumerated; the actuator's dyntype enumerated over mjtDyn), through locals, running indices, helper functions,
+# methods, ?:, switch and early returns alike.  The size contract comes from the plugin's own validator (the accepting
+# paths of Pid::Create pin actuator_actnum) and from the engine (mj_fwdActuation: where the native dyntype state lives).
 
 
-def table_rule(res, pid):
-    res.rule("R-TABLE", "PID: the state-slot sequence (configuration guard per slot, one index step per slot) agrees "
-             "between ActDim, GetState and ActDot, and each slot's role agrees between reader and writer", floor=3)
-    a2f = _attr_map(pid)
-    actadr_user = {}
-    # -- counter: the method whose result is compared with actuator_actnum in Create; found as the static Pid method
-    #    returning a sum of (cond ? 1 : 0) terms
-    counters = []
-    for f in pid.fns("Pid"):
-        for n in cir.walk(f.node):
-            if n.get("k") == "ReturnStmt":
-                terms = []
-                okshape = True
+class LF:
+    """Integer linear form: sum(coeff * symbol) + const.  Symbols are hashable tuples."""
+    __slots__ = ("t", "c", "_k")
 
-                def flat(e):
-                    e = cir.strip(e)
-                    if e is not None and e.get("k") == "BinaryOperator" and e.get("op") == "+":
-                        flat(cir.kids(e)[0])
-                        flat(cir.kids(e)[1])
-                    else:
-                        terms.append(e)
-                c = [x for x in cir.kids(n) if x is not None]
-                if not c:
-                    continue
-                flat(c[0])
-                conds = []
-                for t in terms:
-                    if t is not None and t.get("k") == "ConditionalOperator":
-                        a, b, d = cir.kids(t)
-                        if cir.text(b) == "1" and cir.text(d) == "0":
-                            conds.append(a)
-                            continue
-                    okshape = False
-                if okshape and len(conds) >= 2:
-                    counters.append((f, conds))
-    if len(counters) != 1:
-        raise AnalysisError(f"expected one slot-counting method (sum of `cond ? 1 : 0`), found {[f.key for f, _ in counters]}")
-    cf, conds = counters[0]
-    seq_count = [tuple(sorted(_cfg_keys(c, cf, pid, a2f))) for c in conds]
+    def __init__(self, t=None, c=0):
+        self.t = {s: v for s, v in (t or {}).items() if v}
+        self.c = c
+        self._k = (frozenset(self.t.items()), c)
 
-    # -- reader: reads of d->act[...] stored into State fields ; writer: writes of d->act_dot[...]
-    def slot_accesses(f, field, write):
-        out = []
-        for n in cir.walk(f.node):
-            if n.get("k") == "BinaryOperator" and n.get("op") == "=":
-                lhs, rhs = cir.kids(n)
-                side = lhs if write else rhs
-                for x in cir.walk(side):
-                    if x.get("k") == "ArraySubscriptExpr":
-                        rf = modref.root_field(x)
-                        if rf and rf[0] == "mjData" and rf[1] == field:
-                            if write and cir.strip(lhs) is not x:
-                                continue
-                            out.append((n, x))
+    def __eq__(self, o):
+        return isinstance(o, LF) and self._k == o._k
+
+    def __hash__(self):
+        return hash(self._k)
+
+    def plus(self, o, k=1):
+        t = dict(self.t)
+        for s, v in o.t.items():
+            t[s] = t.get(s, 0) + k * v
+        return LF(t, self.c + k * o.c)
+
+    def times(self, k):
+        return LF({s: v * k for s, v in self.t.items()}, self.c * k)
+
+    @property
+    def const(self):
+        return self.c if not self.t else None
+
+    def subst(self, sym, val):
+        if sym not in self.t:
+            return self
+        t = dict(self.t)
+        k = t.pop(sym)
+        return LF(t, self.c).plus(val, k)
+
+    def fmt(self):
+        parts = []
+        for s, v in sorted(self.t.items(), key=lambda x: _sym_text(x[0])):
+            txt = _sym_text(s)
+            parts.append(("- " if v < 0 else "+ ") + (txt if abs(v) == 1 else f"{abs(v)}*{txt}"))
+        if self.c or not parts:
+            parts.append(("- " if self.c < 0 else "+ ") + str(abs(self.c)))
+        out = " ".join(parts)
+        return out[2:] if out.startswith("+ ") else "-" + out[2:]
+
+
+def _sym_text(s):
+    if s[0] == "id":
+        return "id"
+    if s[0] == "arr":
+        return f"{s[1]}[{s[2].fmt()}]"
+    return ":".join(str(x) for x in s)
+
+
+ID = LF({("id",): 1})            # the actuator under consideration (an element of the plugin's actuator list)
+
+
+class _Unk:
+    def __repr__(self):
+        return "UNK"
+
+
+UNK = _Unk()
+NULL = ("null",)
+
+
+class Enum:
+    def __init__(self, name):
+        self.name = name
+
+    def __eq__(self, o):
+        return isinstance(o, Enum) and o.name == self.name
+
+    def __hash__(self):
+        return hash(("enum", self.name))
+
+
+class Cfg:
+    """A configuration value: kind 'val' (a number: the attribute's value_or(0) / a double PidConfig field) or 'opt'
+    (the optional attribute / an optional PidConfig field)."""
+
+    def __init__(self, kind, field):
+        self.kind, self.field = kind, field
+
+    def __eq__(self, o):
+        return isinstance(o, Cfg) and (o.kind, o.field) == (self.kind, self.field)
+
+    def __hash__(self):
+        return hash(("cfg", self.kind, self.field))
+
+
+class Attr:
+    def __init__(self, name):
+        self.name = name
+
+    def __eq__(self, o):
+        return isinstance(o, Attr) and o.name == self.name
+
+    def __hash__(self):
+        return hash(("attr", self.name))
+
+
+class Num:
+    """A floating-point value; deps: the d->act slots it was computed from, as (linear form | None, tag) with tag None
+    (read directly), '@direct' (read inside the statement that writes act_dot) or the State field it was loaded through."""
+
+    def __init__(self, deps=frozenset()):
+        self.deps = frozenset(deps)
+
+    def __eq__(self, o):
+        return isinstance(o, Num) and o.deps == self.deps
+
+    def __hash__(self):
+        return hash(("num", self.deps))
+
+
+class Cmp:
+    """An undecided `==` / `!=` between two linear forms: diff <op> 0."""
+
+    def __init__(self, diff, op):
+        self.diff, self.op = diff, op
+
+    def neg(self):
+        return Cmp(self.diff, "!=" if self.op == "==" else "==")
+
+
+class Struct:
+    def __init__(self, tname, f=None):
+        self.tname = tname
+        self.f = dict(f or {})
+
+    def copy(self):
+        return Struct(self.tname, {k: (v.copy() if isinstance(v, Struct) else v) for k, v in self.f.items()})
+
+
+class Ptr:
+    """A pointer into d->act / d->act_dot: field and offset (linear form, None when it could not be evaluated)."""
+
+    def __init__(self, fld, off):
+        self.fld, self.off = fld, off
+
+    def __eq__(self, o):
+        return isinstance(o, Ptr) and (o.fld, o.off) == (self.fld, self.off)
+
+    def __hash__(self):
+        return hash(("ptr", self.fld, self.off))
+
+    def shift(self, d, k=1):
+        return Ptr(self.fld, self.off.plus(d, k) if isinstance(self.off, LF) and isinstance(d, LF) else None)
+
+
+class _NeedPred(Exception):
+    def __init__(self, pred):
+        self.pred = pred
+
+
+_INT_TYPES = {"int", "unsigned int", "unsigned", "long", "unsigned long", "long long", "unsigned long long", "short",
+              "size_t", "std::size_t", "std::vector::size_type", "int64_t", "uint64_t", "int32_t", "uint32_t",
+              "uintptr_t", "mjtByte", "unsigned char", "char", "mjtSize"}
+_FLT_TYPES = {"double", "float", "mjtNum"}
+
+
+def _plain_t(t):
+    t = (t or "").replace("const ", "").replace("volatile ", "").strip()
+    while t.endswith("&") or t.endswith(" const"):
+        t = t[:-1].strip() if t.endswith("&") else t[:-6].strip()
+    return t
+
+
+def _is_int_t(t):
+    return _plain_t(t) in _INT_TYPES
+
+
+def _is_flt_t(t):
+    return _plain_t(t) in _FLT_TYPES
+
+
+def _join_val(a, b):
+    if a is b:
+        return a
+    if isinstance(a, Num) and isinstance(b, Num):
+        return Num(a.deps | b.deps)
+    if isinstance(a, Struct) and isinstance(b, Struct):
+        out = Struct(a.tname)
+        for k in set(a.f) | set(b.f):
+            out.f[k] = _join_val(a.f.get(k, Num()), b.f.get(k, Num()))
+        return out
+    if isinstance(a, (LF, Enum, Cfg, Attr, Ptr)) and a == b:
+        return a
+    if isinstance(a, bool) and isinstance(b, bool) and a == b:
+        return a
+    if isinstance(a, Num) or isinstance(b, Num):
+        # a number on one path, something opaque on the other: keep what is known about its sources
+        return a if isinstance(a, Num) else b
+    return UNK
+
+
+class SlotInterp:
+    """Abstract interpreter over the C++ IR of the plugin TU (see the section comment)."""
+
+    ACT_FIELDS = ("act", "act_dot")
+
+    def __init__(self, pid, a2f, assign, dyn):
+        self.pid = pid
+        self.a2f = a2f
+        self.assign = assign          # {(kind, field): bool}
+        self.dyn = dyn                # enumerator name of the actuator's dyntype
+        self.loads = []               # (State field, LF | None, node, function key)
+        self.writes = []              # (LF | None, deps, node, function key)
+        self.stack = []
+        self.fresh = 0
+        self.direct_depth = None
+
+    # ---- helpers
+    def _sym(self, tag):
+        self.fresh += 1
+        return LF({("tmp", tag, self.fresh): 1})
+
+    def _fork(self, env):
+        return {k: (v.copy() if isinstance(v, Struct) else v) for k, v in env.items()}
+
+    def _join_envs(self, envs):
+        if len(envs) == 1:
+            return envs[0]
+        out = {}
+        keys = set(envs[0])
+        for e in envs[1:]:
+            keys &= set(e)
+        for k in keys:
+            if k == "$pc":
+                continue
+            v = envs[0][k]
+            for e in envs[1:]:
+                v = _join_val(v, e[k])
+            out[k] = v
+        pcs = [e.get("$pc", ()) for e in envs]
+        out["$pc"] = tuple(c for c in pcs[0] if all(c in p for p in pcs[1:]))
         return out
 
-    readers = [f for f in pid.fns("Pid") if any(_is_state_member(cir.strip(cir.kids(n)[0]), STATE_INTEGRAL)
-                                                for n, _ in slot_accesses(f, "act", False))]
-    writers = [f for f in pid.fns("Pid") if slot_accesses(f, "act_dot", True)]
-    if len(readers) != 1 or len(writers) != 1:
-        raise AnalysisError(f"state-slot reader/writer not unique: readers {[f.key for f in readers]}, writers "
-                            f"{[f.key for f in writers]}")
-    rd, wr = readers[0], writers[0]
+    def truth(self, v):
+        if isinstance(v, bool):
+            return v
+        if isinstance(v, LF):
+            return None if v.const is None else bool(v.const)
+        if v is NULL:
+            return False
+        if isinstance(v, Cfg):
+            pred = (v.kind, v.field)
+            if pred not in self.assign:
+                raise _NeedPred(pred)
+            return self.assign[pred]
+        return None
 
-    def steps_ok(f, accesses):
-        """Every slot access advances the index variable exactly once inside its guard block."""
-        problems = []
-        for n, sub in accesses:
-            idx = cir.strip(cir.kids(sub)[1])
-            post = idx is not None and idx.get("k") == "UnaryOperator" and idx.get("op") == "++"
-            var = _var_id(cir.kids(idx)[0]) if post else _var_id(idx)
-            if var is None:
-                problems.append((n.get("line"), "slot index is not a plain index variable"))
+    def _here(self):
+        return self.stack[-1] if self.stack else "?"
+
+    # ---- statements: every handler returns [(kind, env, value)] with kind N(ext) R(eturn) B(reak) C(ontinue)
+    def block(self, stmts, env):
+        live, done = [env], []
+        for s in stmts:
+            if s is None:
                 continue
-            # the innermost block containing the access
-            block = None
-            for b in cir.walk(f.node):
-                if b.get("k") == "CompoundStmt" and any(c is n or (c is not None and any(y is n for y in cir.walk(c)))
-                                                        for c in cir.kids(b)):
-                    block = b
-            incs = 0
-            if block is not None:
-                for y in cir.walk(block):
-                    if y.get("k") == "UnaryOperator" and y.get("op") == "++" and _var_id(cir.kids(y)[0]) == var:
-                        incs += 1
-                    if y.get("k") == "CompoundAssignOperator" and _var_id(cir.kids(y)[0]) == var:
-                        incs += 1
-            if incs != 1:
-                problems.append((n.get("line"), f"the index advances {incs} times for this slot"))
-        return problems
+            nxt = []
+            for e in live:
+                for kind, e2, v in self.stmt(s, e):
+                    if kind == "N":
+                        nxt.append(e2)
+                    else:
+                        done.append((kind, e2, v))
+            live = [self._join_envs(nxt)] if len(nxt) > 1 else nxt
+            if not live:
+                break
+        return done + [("N", e, None) for e in live]
 
-    racc = slot_accesses(rd, "act", False)
-    wacc = slot_accesses(wr, "act_dot", True)
-    seq_read = [_guard_stack_keys(rd, n, pid, a2f) for n, _ in racc]
-    seq_write = [_guard_stack_keys(wr, n, pid, a2f) for n, _ in wacc]
-    role_read = []
-    for n, _ in racc:
-        ch = cxx3.member_chain(cir.kids(n)[0])
-        role_read.append(ch[-1] if ch else "?")
-    # writer role: does the stored value derive from State.integral ?
-    wdefs = cxx3.local_defs(wr.node)
+    def stmt(self, n, env):
+        k = n.get("k")
+        if k == "CompoundStmt":
+            return self.block(cir.kids(n), env)
+        if k == "DeclStmt":
+            for v in cir.kids(n):
+                if v is not None and v.get("k") == "VarDecl" and v.get("id"):
+                    self._declare(v, env)
+            return [("N", env, None)]
+        if k == "IfStmt":
+            return self._if(n, env)
+        if k == "ReturnStmt":
+            c = [x for x in cir.kids(n) if x is not None]
+            return [("R", env, self.eval(c[0], env) if c else None)]
+        if k == "BreakStmt":
+            return [("B", env, None)]
+        if k == "ContinueStmt":
+            return [("C", env, None)]
+        if k in ("NullStmt",):
+            return [("N", env, None)]
+        if k in ("AttributedStmt", "LabelStmt"):
+            c = [x for x in cir.kids(n) if x is not None]
+            return self.stmt(c[-1], env) if c else [("N", env, None)]
+        if k == "CXXTryStmt":
+            c = [x for x in cir.kids(n) if x is not None]
+            return self.stmt(c[0], env) if c else [("N", env, None)]
+        if k == "ForStmt":
+            c = list(cir.kids(n)) + [None] * 5
+            return self._loop(n, env, c[0], c[2], c[3], c[4])
+        if k == "WhileStmt":
+            c = list(cir.kids(n))
+            return self._loop(n, env, None, c[0] if len(c) > 1 else None, None, c[-1])
+        if k == "DoStmt":
+            c = list(cir.kids(n))
+            return self._loop(n, env, None, c[1] if len(c) > 1 else None, None, c[0])
+        if k == "CXXForRangeStmt":
+            c = list(cir.kids(n))
+            var = None
+            for d in c[:-1]:
+                if d is not None and d.get("k") == "DeclStmt":
+                    for v in cir.kids(d):
+                        if v is not None and v.get("k") == "VarDecl" and not (v.get("n") or "").startswith("__"):
+                            var = v
+            return self._loop(n, env, None, None, None, c[-1], rangevar=var)
+        if k == "SwitchStmt":
+            return self._switch(n, env)
+        if k in ("GotoStmt", "GCCAsmStmt", "CoreturnStmt"):
+            raise AnalysisError(f"{self._here()}: statement {k} (line {n.get('line')}) is not interpreted")
+        self.eval(n, env)
+        return [("N", env, None)]
 
-    def derives_integral(e, seen):
-        for x in cir.walk(e):
-            if _is_state_member(x, STATE_INTEGRAL):
+    def _declare(self, v, env):
+        init = [c for c in cir.kids(v) if c is not None and not (c.get("k") or "").endswith("Attr")]
+        t = v.get("t") or ""
+        if init:
+            val = self.eval(init[-1], env)
+            if isinstance(val, Struct) and not t.rstrip().endswith("&"):
+                val = val.copy()
+            if isinstance(val, bool) and _is_int_t(t) and _plain_t(t) != "bool":
+                val = LF(c=int(val))
+        elif _is_int_t(t):
+            val = UNK
+        elif _is_flt_t(t):
+            val = Num()
+        else:
+            val = Struct(cxx3.base_type(t) or t)
+        env[v["id"]] = val
+
+    def _if(self, n, env):
+        c = list(cir.kids(n))
+        idx = 0
+        if n.get("hasInit"):
+            for _k, env, _v in self.stmt(c[0], env):
+                pass
+            idx = 1
+        if n.get("hasVar"):
+            for _k, env, _v in self.stmt(c[idx], env):
+                pass
+            idx += 1
+        cond = c[idx]
+        then = c[idx + 1] if len(c) > idx + 1 else None
+        els = c[idx + 2] if len(c) > idx + 2 else None
+        v = self.eval(cond, env)
+        t = self.truth(v)
+        outs = []
+        if t is True:
+            outs = self.stmt(then, env) if then is not None else [("N", env, None)]
+        elif t is False:
+            outs = self.stmt(els, env) if els is not None else [("N", env, None)]
+        else:
+            e1, e2 = self._fork(env), self._fork(env)
+            if isinstance(v, Cmp):
+                e1["$pc"] = e1.get("$pc", ()) + ((v.diff, v.op),)
+                e2["$pc"] = e2.get("$pc", ()) + ((v.neg().diff, v.neg().op),)
+            outs = (self.stmt(then, e1) if then is not None else [("N", e1, None)]) + \
+                   (self.stmt(els, e2) if els is not None else [("N", e2, None)])
+        nxt = [e for kind, e, _ in outs if kind == "N"]
+        rest = [o for o in outs if o[0] != "N"]
+        if len(nxt) > 1:
+            nxt = [self._join_envs(nxt)]
+        return rest + [("N", e, None) for e in nxt]
+
+    def _modified(self, *nodes):
+        out = {}
+        for root in nodes:
+            for x in cir.walk(root):
+                k = x.get("k")
+                if (k == "BinaryOperator" and x.get("op") == "=") or k == "CompoundAssignOperator" or \
+                        (k == "UnaryOperator" and x.get("op") in ("++", "--")):
+                    l = cir.strip(cir.kids(x)[0])
+                    if l is not None and l.get("k") == "DeclRefExpr":
+                        r = l.get("ref") or {}
+                        out[r.get("id")] = r.get("t")
+        return out
+
+    def _havoc(self, env, mod, tag):
+        for vid, t in mod.items():
+            if vid in env and not isinstance(env[vid], Struct):
+                env[vid] = self._sym(tag) if _is_int_t(t) else (Num() if _is_flt_t(t) else UNK)
+
+    def _loop(self, n, env, init, cond, inc, body, rangevar=None):
+        """One symbolic iteration: variables the loop changes are unknown on entry to the body and after the loop; the
+        element a loop over the plugin's actuator list visits is the symbol `id`.  Path conditions that hold on every
+        way through the body hold for every actuator visited (they are kept after the loop)."""
+        if init is not None:
+            for _k, env, _v in self.stmt(init, env):
+                pass
+        mod = self._modified(cond, inc, body)
+        self._havoc(env, mod, "loop")
+        before = self._fork(env)
+        if rangevar is not None:
+            env[rangevar["id"]] = ID if _is_int_t(rangevar.get("t")) else UNK
+        if cond is not None:
+            self.eval(cond, env)
+        outs = self.stmt(body, env) if body is not None else [("N", env, None)]
+        res = [o for o in outs if o[0] == "R"]
+        cont = [e for kind, e, _ in outs if kind != "R"]
+        if inc is not None:
+            for e in cont:
+                self.eval(inc, e)
+        if cont:
+            pcs = [e.get("$pc", ()) for e in cont]
+            keep = tuple(c for c in pcs[0] if all(c in p for p in pcs[1:]))
+            after = self._join_envs(cont + [before])
+            after["$pc"] = keep
+        else:
+            after = before
+        self._havoc(after, mod, "after")
+        return res + [("N", after, None)]
+
+    def _switch(self, n, env):
+        c = [x for x in cir.kids(n) if x is not None]
+        subj, body = self.eval(c[0], env), c[-1]
+        flat = []
+
+        def add(st):
+            if st is None:
+                return
+            if st.get("k") in ("CaseStmt", "DefaultStmt"):
+                flat.append(("label", st))
+                add(cir.kids(st)[-1] if cir.kids(st) else None)
+            else:
+                flat.append(("stmt", st))
+        for st in (cir.kids(body) if body.get("k") == "CompoundStmt" else [body]):
+            add(st)
+        labels = [(i, st) for i, (t, st) in enumerate(flat) if t == "label"]
+
+        def run_from(i, e):
+            live, done = [e], []
+            for t, st in flat[i:]:
+                if t == "label" or not live:
+                    continue
+                nxt = []
+                for e1 in live:
+                    for kind, e2, v in self.stmt(st, e1):
+                        if kind == "N":
+                            nxt.append(e2)
+                        elif kind == "B":
+                            done.append(("N", e2, None))
+                        else:
+                            done.append((kind, e2, v))
+                live = [self._join_envs(nxt)] if len(nxt) > 1 else nxt
+            return done + [("N", e1, None) for e1 in live]
+
+        decided = None
+        if isinstance(subj, (Enum, LF)) and (isinstance(subj, Enum) or subj.const is not None):
+            decided = "default"
+            for i, st in labels:
+                if st.get("k") != "CaseStmt":
+                    continue
+                lab = self.eval(cir.kids(st)[0], self._fork(env))
+                if isinstance(lab, type(subj)) and lab == subj:
+                    decided = i
+                    break
+                if not isinstance(lab, type(subj)):
+                    decided = None
+                    break
+        if decided is not None:
+            if decided == "default":
+                d = [i for i, st in labels if st.get("k") == "DefaultStmt"]
+                return run_from(d[0], env) if d else [("N", env, None)]
+            return run_from(decided, env)
+        outs = []
+        for i, _st in labels:
+            outs += run_from(i, self._fork(env))
+        if not any(st.get("k") == "DefaultStmt" for _i, st in labels):
+            outs.append(("N", env, None))
+        nxt = [e for kind, e, _ in outs if kind == "N"]
+        rest = [o for o in outs if o[0] != "N"]
+        return rest + ([("N", self._join_envs(nxt), None)] if nxt else [])
+
+    # ---- expressions
+    def _data_field(self, n):
+        """('mjData' | 'mjModel', field) if n is `p->field` on a pointer to one of the two structs."""
+        n = cir.strip(n)
+        if n is None or n.get("k") != "MemberExpr" or not n.get("arrow"):
+            return None
+        b = cir.kids(n)
+        bt = cxx3.base_type(cir.strip(b[0], casts=False).get("t")) if b and b[0] is not None else None
+        if bt in ("mjData", "mjData_"):
+            return "mjData", n.get("n")
+        if bt in ("mjModel", "mjModel_"):
+            return "mjModel", n.get("n")
+        return None
+
+    def _cfg_member(self, n):
+        """Cfg for a member of a PidConfig object (config_.x, config.x, this->config_.x)."""
+        if n.get("k") != "MemberExpr":
+            return None
+        b = cir.kids(n)
+        bb = cir.strip(b[0], casts=False) if b and b[0] is not None else None
+        if bb is None or cxx3.base_type(bb.get("t")) != "PidConfig":
+            return None
+        return Cfg("opt" if "optional" in (n.get("t") or "") else "val", n.get("n"))
+
+    def _index(self, n, env):
+        v = self.eval(n, env)
+        return v if isinstance(v, LF) else None
+
+    def _slot_access(self, fld, idx, n, lvalue):
+        """A read (value) or the designation (lvalue) of slot `idx` of d->act / d->act_dot."""
+        if lvalue:
+            return ("slot", fld, idx)
+        if fld == "act":
+            if idx is None:
+                raise AnalysisError(f"{self._here()}: d->act is read at an index that could not be evaluated "
+                                    f"(line {n.get('line')}: `{cir.text(n)}`)")
+            tag = "@direct" if self.direct_depth == len(self.stack) else None
+            return Num({(idx, tag)})
+        return Num()
+
+    def _subscript(self, n, env, lvalue=False):
+        c = cir.kids(n)
+        df = self._data_field(c[0])
+        if df is not None and df[0] == "mjModel":
+            idx = self._index(c[1], env)
+            if df[1] == "actuator_dyntype":
+                return Enum(self.dyn) if idx == ID else UNK
+            if _is_int_t(n.get("t")):
+                return LF({("arr", df[1], idx): 1}) if idx is not None else UNK
+            return Num() if _is_flt_t(n.get("t")) else UNK
+        base = self.eval(c[0], env)
+        idx = self._index(c[1], env)
+        if isinstance(base, Ptr):
+            return self._slot_access(base.fld, base.shift(idx).off if idx is not None else None, n, lvalue)
+        return Num() if _is_flt_t(n.get("t")) else UNK
+
+    def _store(self, lhs, val, env, node):
+        l = cir.strip(lhs)
+        if l is None:
+            return
+        k = l.get("k")
+        if k == "DeclRefExpr":
+            vid = (l.get("ref") or {}).get("id")
+            if isinstance(val, Struct):
+                val = val.copy()
+            env[vid] = val
+            return
+        if k == "MemberExpr":
+            b = cir.strip(cir.kids(l)[0]) if cir.kids(l) else None
+            if b is not None and b.get("k") == "DeclRefExpr":
+                obj = env.get((b.get("ref") or {}).get("id"))
+                if isinstance(obj, Struct):
+                    obj.f[l.get("n")] = val
+                    if obj.tname == "State" and isinstance(val, Num):
+                        for form, tag in val.deps:
+                            if tag in (None, "@direct"):
+                                self.loads.append((l.get("n"), form, node, self._here()))
+                    return
+            df = self._data_field(l)
+            if df and df[0] == "mjData" and df[1] in self.ACT_FIELDS:
+                raise AnalysisError(f"{self._here()}: d->{df[1]} itself is assigned (line {node.get('line')})")
+            return
+        if k == "ArraySubscriptExpr" or (k == "UnaryOperator" and l.get("op") == "*"):
+            r = self._lvalue_slot(l, env)
+            if r is not None:
+                deps = val.deps if isinstance(val, Num) else frozenset()
+                self.writes.append((r[1], r[2], deps, node, self._here()))
+            return
+        self.eval(l, env)
+
+    def _lvalue_slot(self, l, env):
+        """('slot', field, index) if the lvalue designates a slot of d->act / d->act_dot, else None."""
+        if l.get("k") == "ArraySubscriptExpr":
+            r = self._subscript(l, env, lvalue=True)
+        else:
+            v = self.eval(cir.kids(l)[0], env)
+            r = ("slot", v.fld, v.off) if isinstance(v, Ptr) else None
+        return r if isinstance(r, tuple) and r and r[0] == "slot" else None
+
+    def eval(self, n, env):
+        n = cir.strip(n)
+        if n is None:
+            return UNK
+        k = n.get("k")
+        if k == "IntegerLiteral":
+            try:
+                return LF(c=int(str(n.get("v")), 0))
+            except ValueError:
+                return UNK
+        if k == "CXXBoolLiteralExpr":
+            return str(n.get("v")).lower() in ("true", "1")
+        if k == "FloatingLiteral":
+            try:
+                return LF(c=0) if float(n.get("v")) == 0 else Num()
+            except (TypeError, ValueError):
+                return Num()
+        if k in ("CXXNullPtrLiteralExpr", "GNUNullExpr"):
+            return NULL
+        if k == "DeclRefExpr":
+            r = n.get("ref") or {}
+            if r.get("k") == "EnumConstantDecl":
+                return Enum(r.get("n"))
+            if r.get("k") in ("VarDecl", "ParmVarDecl"):
+                vid = r.get("id")
+                if vid in env:
+                    return env[vid]
+                if r.get("n") in self.a2f:
+                    return Attr(r.get("n"))
+                if _is_int_t(r.get("t")):
+                    env[vid] = LF({("var", r.get("n"), vid): 1})
+                    return env[vid]
+                return Num() if _is_flt_t(r.get("t")) else UNK
+            return UNK
+        if k == "MemberExpr":
+            cfg = self._cfg_member(n)
+            if cfg is not None:
+                return cfg
+            df = self._data_field(n)
+            if df is not None:
+                if df[0] == "mjData" and df[1] in self.ACT_FIELDS:
+                    return Ptr(df[1], LF())
+                if _is_int_t(n.get("t")):
+                    return LF({("m", df[1]): 1})
+                return Num() if _is_flt_t(n.get("t")) else UNK
+            b = cir.strip(cir.kids(n)[0]) if cir.kids(n) else None
+            if b is not None and b.get("k") == "DeclRefExpr":
+                obj = env.get((b.get("ref") or {}).get("id"))
+                if isinstance(obj, Struct):
+                    v = obj.f.get(n.get("n"))
+                    if v is None:
+                        v = Num() if _is_flt_t(n.get("t")) else UNK
+                    if obj.tname == "State" and isinstance(v, Num):
+                        v = Num({(f, n.get("n") if t in (None, "@direct") else t) for f, t in v.deps})
+                    return v
+            if b is not None:
+                self.eval(b, env)
+            return Num() if _is_flt_t(n.get("t")) else UNK
+        if k == "ArraySubscriptExpr":
+            return self._subscript(n, env)
+        if k == "UnaryOperator":
+            return self._unary(n, env)
+        if k == "BinaryOperator":
+            return self._binary(n, env)
+        if k == "CompoundAssignOperator":
+            a, b = cir.kids(n)
+            rv = self.eval(b, env)
+            l = cir.strip(a)
+            if l is not None and (l.get("k") == "ArraySubscriptExpr" or
+                                  (l.get("k") == "UnaryOperator" and l.get("op") == "*")):
+                r = self._lvalue_slot(l, env)
+                if r is not None:
+                    self.writes.append((r[1], r[2], rv.deps if isinstance(rv, Num) else frozenset(), n, self._here()))
+                return UNK
+            cur = self.eval(a, env)
+            op = (n.get("op") or "")[:-1]
+            val = self._arith(op, cur, rv, n.get("t"))
+            self._store(a, val, env, n)
+            return val
+        if k == "ConditionalOperator":
+            c, a, b = cir.kids(n)
+            t = self.truth(self.eval(c, env))
+            if t is True:
+                return self.eval(a, env)
+            if t is False:
+                return self.eval(b, env)
+            return _join_val(self.eval(a, env), self.eval(b, env))
+        if k in cxx3.CTOR_KINDS:
+            c = [x for x in cir.kids(n) if x is not None]
+            if len(c) == 1:
+                v = self.eval(c[0], env)
+                return v.copy() if isinstance(v, Struct) else v
+            for x in c:
+                self.eval(x, env)
+            if not c and not _is_int_t(n.get("t")) and not _is_flt_t(n.get("t")) and "optional" not in (n.get("t") or ""):
+                return Struct(cxx3.base_type(n.get("t")) or "")
+            return UNK
+        if cir.is_call(n):
+            return self._call(n, env)
+        if k == "CXXDefaultArgExpr":
+            c = [x for x in cir.kids(n) if x is not None]
+            return self.eval(c[0], env) if c else UNK
+        if k in ("LambdaExpr", "StringLiteral", "CXXThisExpr", "CXXNewExpr", "CXXDeleteExpr", "InitListExpr",
+                 "UnaryExprOrTypeTraitExpr", "CharacterLiteral", "ImplicitValueInitExpr", "CXXScalarValueInitExpr"):
+            if k == "InitListExpr":
+                for x in cir.kids(n):
+                    if x is not None:
+                        self.eval(x, env)
+            return UNK
+        for x in cir.kids(n):
+            if x is not None and x.get("k") not in ("CompoundStmt",):
+                self.eval(x, env)
+        return Num() if _is_flt_t(n.get("t")) else UNK
+
+    def _unary(self, n, env):
+        op = n.get("op")
+        a = cir.kids(n)[0]
+        if op in ("++", "--"):
+            cur = self.eval(a, env)
+            if isinstance(cur, Ptr):
+                new = cur.shift(LF(c=1), 1 if op == "++" else -1)
+            else:
+                new = cur.plus(LF(c=1), 1 if op == "++" else -1) if isinstance(cur, LF) else UNK
+            self._store(a, new, env, n)
+            return cur if n.get("isPostfix") else new
+        if op == "&":
+            l = cir.strip(a)
+            if l is not None and l.get("k") == "ArraySubscriptExpr":
+                r = self._lvalue_slot(l, env)
+                return Ptr(r[1], r[2]) if r is not None else UNK
+            self.eval(a, env)
+            return UNK
+        v = self.eval(a, env)
+        if op == "*" and isinstance(v, Ptr):
+            return self._slot_access(v.fld, v.off, n, False)
+        if op == "!":
+            if isinstance(v, Cmp):
+                return v.neg()
+            t = self.truth(v)
+            return UNK if t is None else (not t)
+        if op == "-":
+            if isinstance(v, LF):
+                return v.times(-1)
+            return v if isinstance(v, Num) else (Num() if _is_flt_t(n.get("t")) else UNK)
+        if op == "+":
+            return v
+        return Num() if _is_flt_t(n.get("t")) else UNK
+
+    def _arith(self, op, a, b, t):
+        a = LF(c=int(a)) if isinstance(a, bool) else a
+        b = LF(c=int(b)) if isinstance(b, bool) else b
+        if isinstance(a, Ptr) and op in ("+", "-"):
+            return a.shift(b if isinstance(b, LF) else None, 1 if op == "+" else -1)
+        if isinstance(b, Ptr) and op == "+":
+            return b.shift(a if isinstance(a, LF) else None)
+        if isinstance(a, LF) and isinstance(b, LF) and not _is_flt_t(t):
+            if op == "+":
+                return a.plus(b)
+            if op == "-":
+                return a.plus(b, -1)
+            if op == "*":
+                if a.const is not None:
+                    return b.times(a.const)
+                if b.const is not None:
+                    return a.times(b.const)
+            if op in ("/", "%") and a.const is not None and b.const:
+                return LF(c=(abs(a.const) // abs(b.const)) * (1 if (a.const >= 0) == (b.const >= 0) else -1)) \
+                    if op == "/" else UNK
+            return UNK
+        deps = frozenset()
+        for x in (a, b):
+            if isinstance(x, Num):
+                deps |= x.deps
+        if _is_flt_t(t) or isinstance(a, (Num, Cfg)) or isinstance(b, (Num, Cfg)):
+            return Num(deps)
+        return UNK
+
+    def _compare(self, op, a, b):
+        if isinstance(a, LF) and isinstance(b, LF):
+            d = a.plus(b, -1)
+            if d.const is not None:
+                v = d.const
+                return {"==": v == 0, "!=": v != 0, "<": v < 0, "<=": v <= 0, ">": v > 0, ">=": v >= 0}[op]
+            return Cmp(d, op) if op in ("==", "!=") else UNK
+        if isinstance(a, Enum) and isinstance(b, Enum) and op in ("==", "!="):
+            return (a == b) if op == "==" else (a != b)
+        for x, y in ((a, b), (b, a)):
+            if isinstance(x, Cfg) and x.kind == "val" and isinstance(y, LF) and y.const == 0 and op in ("==", "!="):
+                t = self.truth(x)
+                return t if op == "!=" else (not t)
+        if (a is NULL or b is NULL) and op in ("==", "!="):
+            if a is NULL and b is NULL:
+                return op == "=="
+        return UNK
+
+    def _binary(self, n, env):
+        op = n.get("op")
+        a, b = cir.kids(n)
+        if op == "=":
+            l = cir.strip(a)
+            is_slot = l is not None and l.get("k") == "ArraySubscriptExpr" and \
+                (self._data_field(cir.kids(l)[0]) or (None, None))[0] == "mjData" and \
+                self._data_field(cir.kids(l)[0])[1] == "act_dot"
+            if is_slot:
+                old = self.direct_depth
+                self.direct_depth = len(self.stack)
+                try:
+                    v = self.eval(b, env)
+                finally:
+                    self.direct_depth = old
+            else:
+                v = self.eval(b, env)
+            self._store(a, v, env, n)
+            return v
+        if op == ",":
+            self.eval(a, env)
+            return self.eval(b, env)
+        if op in ("&&", "||"):
+            va = self.eval(a, env)
+            ta = self.truth(va)
+            if op == "&&" and ta is False:
+                return False
+            if op == "||" and ta is True:
                 return True
-            if x.get("k") == "DeclRefExpr":
-                i = (x.get("ref") or {}).get("id")
-                if i in wdefs and i not in seen:
-                    seen.add(i)
-                    if any(derives_integral(d, seen) for d in wdefs[i]):
-                        return True
-        return False
-    role_write = [STATE_INTEGRAL if derives_integral(cir.kids(n)[1], set()) else "other" for n, _ in wacc]
+            vb = self.eval(b, self._fork(env) if ta is None else env)
+            tb = self.truth(vb)
+            if ta is not None:
+                return vb if tb is None else tb
+            if op == "&&" and tb is False:
+                return False
+            if op == "||" and tb is True:
+                return True
+            return UNK
+        va, vb = self.eval(a, env), self.eval(b, env)
+        if op in ("==", "!=", "<", "<=", ">", ">="):
+            return self._compare(op, va, vb)
+        if op in ("+", "-", "*", "/", "%"):
+            return self._arith(op, va, vb, n.get("t"))
+        return Num() if _is_flt_t(n.get("t")) else UNK
 
-    def simple(seq):
-        return [tuple(k for k, pol in g) for g in seq]
-    c_seq = f"{cf.key}~{rd.key}~{wr.key}:slot-sequence"
-    s_c, s_r, s_w = [(k,) for k in seq_count], simple(seq_read), simple(seq_write)
-    if not (s_c == s_r == s_w):
-        res.bad("R-TABLE", c_seq, wr.file, (wacc[0][0].get("line") if wacc else wr.line),
-                f"the slot sequences disagree: {cf.key} counts {s_c}, {rd.key} reads {s_r}, {wr.key} writes {s_w} — "
-                f"a state variable is read from a slot another function treats as a different variable")
-    else:
-        res.ok("R-TABLE", c_seq, {"slots": [list(k[0]) for k in s_c]})
-    c_role = f"{rd.key}~{wr.key}:slot-roles"
-    want = [STATE_INTEGRAL if r == STATE_INTEGRAL else "other" for r in role_read]
-    if want != role_write:
-        res.bad("R-TABLE", c_role, wr.file, wacc[0][0].get("line") if wacc else wr.line,
-                f"{rd.key} stores the slots into {role_read} but {wr.key} derives the slots from {role_write}")
-    else:
-        res.ok("R-TABLE", c_role, {"reader": role_read, "writer": role_write})
-    c_step = f"{rd.key}~{wr.key}:slot-step"
-    pr = steps_ok(rd, racc) + steps_ok(wr, wacc)
-    if pr:
-        res.bad("R-TABLE", c_step, wr.file, pr[0][0], pr[0][1])
-    else:
-        res.ok("R-TABLE", c_step)
+    def _call(self, n, env):
+        c = cir.kids(n)
+        f = cir.strip(c[0]) if c else None
+        name = cir.callee(n)
+        # ---- std::optional / container idioms on evaluated objects
+        if n.get("k") == "CXXMemberCallExpr" and f is not None and f.get("k") == "MemberExpr":
+            objn = cir.kids(f)[0] if cir.kids(f) else None
+            ot = (cir.strip(objn, casts=False).get("t") or "") if objn is not None and cir.strip(objn, casts=False) else ""
+            if "optional" in ot:
+                obj = self.eval(objn, env)
+                argv = [self.eval(a, env) for a in c[1:]]
+                if name in ("has_value", "operator bool"):
+                    if isinstance(obj, Cfg) and obj.kind == "opt":
+                        return self.truth(obj)
+                    return UNK
+                if name == "value_or":
+                    if isinstance(obj, Cfg) and obj.kind == "opt" and argv and isinstance(argv[0], LF) and argv[0].const == 0:
+                        return Cfg("val", obj.field)
+                    return Num()
+                return Num() if name == "value" else UNK
+        if n.get("k") == "CXXOperatorCallExpr" and f is not None and f.get("k") == "DeclRefExpr":
+            opn = (f.get("ref") or {}).get("n")
+            ot = (cir.strip(c[1], casts=False).get("t") or "") if len(c) > 1 and c[1] is not None else ""
+            if opn == "operator*" and "optional" in ot:
+                self.eval(c[1], env)
+                return Num()
+            if opn == "operator[]" and re.search(r"(vector|array)<\s*int\b", ot):
+                for a in c[2:]:
+                    self.eval(a, env)
+                return ID
+            if opn == "operator*" and re.search(r"iterator|__normal_iterator<\s*(const )?int", ot):
+                return ID if "int" in ot else UNK
+        # ---- functions of the plugin TU: interpreted
+        info = cxx3.callee_info(n)
+        tg = [g for g in (self.pid.resolver.targets(info, self.pid.rel, cxx3.call_nargs(n)) if info else [])
+              if g.file == self.pid.rel and cir.body(g.node) is not None]
+        args = cir.args(n)
+        if n.get("k") == "CXXOperatorCallExpr":
+            args = list(c[2:]) if tg and tg[0].qual else list(c[1:])
+        if len(tg) == 1 and info[0] in ("free", "method"):
+            argv = [self.eval(a, env) for a in args]
+            return self._invoke(tg[0], argv, n)
+        argv = [self.eval(a, env) for a in args]
+        if f is not None and f.get("k") == "MemberExpr" and cir.kids(f):
+            self.eval(cir.kids(f)[0], env)
+        if len(tg) > 1:
+            raise AnalysisError(f"{self._here()}: call of {name}() (line {n.get('line')}) has several targets in the "
+                                f"plugin TU")
+        # ---- external: attribute readers return the configuration value; numeric results keep their sources
+        rt = n.get("t") or ""
+        if any(isinstance(a, Ptr) for a in argv):
+            raise AnalysisError(f"{self._here()}: a pointer into d->act / d->act_dot is handed to {name}() (line "
+                                f"{n.get('line')}): the slots it touches cannot be evaluated")
+        attrs = [a for a in argv if isinstance(a, Attr)]
+        if attrs and "optional" in rt:
+            return Cfg("opt", self.a2f[attrs[0].name])
+        if name == "move" and argv:
+            return argv[0]
+        deps = frozenset()
+        for a in argv:
+            if isinstance(a, Num):
+                deps |= a.deps
+        if _is_flt_t(rt):
+            return Num(deps)
+        return UNK
+
+    def _invoke(self, g, argv, node):
+        if len(self.stack) > 12 or g.key in self.stack:
+            raise AnalysisError(f"{self._here()}: recursive or too deep call of {g.key} (line {node.get('line')})")
+        ps = cir.params(g.node)
+        env = {}
+        attrs = [a for a in argv if isinstance(a, Attr)]
+        rt = (g.sig or "").split("(")[0].strip()
+        if attrs and "optional" in rt:
+            return Cfg("opt", self.a2f[attrs[0].name])     # an attribute reader: the configuration value itself
+        for p_, v in zip(ps, argv):
+            if isinstance(v, Struct) and not (p_.get("t") or "").rstrip().endswith(("&", "*")):
+                v = v.copy()
+            if p_.get("id"):
+                env[p_["id"]] = v
+        self.stack.append(g.key)
+        try:
+            outs = self.block(cir.kids(cir.body(g.node)), env)
+        finally:
+            self.stack.pop()
+        rets = [v for kind, _e, v in outs if kind == "R"]
+        if not rets:
+            return UNK
+        val = rets[0]
+        for v in rets[1:]:
+            val = _join_val(val, v) if not (v is None or val is None) else UNK
+        return UNK if val is None else val
+
+
+def _mjdata_act_reach(pid, root):
+    """Does the code reachable from `root` inside the plugin TU mention d->act / d->act_dot?"""
+    seen, todo = set(), [root]
+    while todo:
+        node = todo.pop()
+        if id(node) in seen:
+            continue
+        seen.add(id(node))
+        for x in cir.walk(node):
+            if x.get("k") == "MemberExpr" and x.get("arrow") and x.get("n") in SlotInterp.ACT_FIELDS:
+                b = cir.kids(x)
+                if b and b[0] is not None and cxx3.base_type(cir.strip(b[0], casts=False).get("t")) in ("mjData", "mjData_"):
+                    return True
+            if cir.is_call(x):
+                info = cxx3.callee_info(x)
+                for g in (pid.resolver.targets(info, pid.rel, cxx3.call_nargs(x)) if info else []):
+                    if g.file == pid.rel:
+                        todo.append(g.node)
+    return False
+
+
+def _engine_native_slots(repo):
+    """Where the engine keeps the native (dyntype) activation state: for each mjtDyn enumerator the index forms of the
+    writes to d->act_dot in the function that afterwards calls the plugins' actuator_act_dot callback, as linear forms
+    over m->actuator_actadr[i] / m->actuator_actnum[i].  {enumerator: [(line, form dict)]}, host function name."""
+    from .. import ctypeinfo, engine, linform, norm
+    tu = "src/engine/engine_forward.c"
+    u = engine.unit(tu, repo)
+    hosts = [name for name, fn in u.funcs.items()
+             if any(cir.is_call(x) and (cir.callee_expr(x) or {}).get("k") == "MemberExpr" and
+                    cir.callee_expr(x).get("n") == "actuator_act_dot" for x in cir.walk(fn))]
+    if len(hosts) != 1:
+        raise AnalysisError(f"expected one engine function calling the actuator_act_dot plugin callback in {tu}, found "
+                            f"{hosts}")
+    fn = norm.canon(u, hosts[0], inline_helpers=False, propagate=False, nested=True)
+    defs = linform.single_defs(fn)
+    enums = [e for e, _v in ctypeinfo.enum_values("mjtDyn", repo)]
+
+    def is_dyn(text):
+        d = defs.get(text)
+        return "actuator_dyntype" in text or (d is not None and "actuator_dyntype" in cir.text(d))
+    out = {e: [] for e in enums}
+    for n in cir.walk(fn):
+        if not ((n.get("k") == "BinaryOperator" and n.get("op") == "=") or n.get("k") == "CompoundAssignOperator"):
+            continue
+        l = cir.strip(cir.kids(n)[0])
+        if l is None or l.get("k") != "ArraySubscriptExpr":
+            continue
+        rf = modref.root_field(l)
+        if not rf or rf[0] != "mjData" or rf[1] != "act_dot":
+            continue
+        g = norm.guards(fn, n)
+        live, constrained = norm.enum_cases(g, set(enums), subject=is_dyn)
+        if not constrained:
+            continue
+        form = linform.linform(cir.kids(l)[1], defs)
+        for e in live:
+            out[e].append((n.get("line"), form))
+    return hosts[0], tu, out
+
+
+def _tail_anchored(form):
+    """The index is counted from the end of the actuator's activation block: actadr + actnum + ..."""
+    a = [c for t, c in form.items() if "actuator_actadr[" in t]
+    b = [c for t, c in form.items() if "actuator_actnum[" in t]
+    return a == [1] and b == [1]
+
+
+A_SYM = ("arr", "actuator_actadr", ID)
+N_SYM = ("arr", "actuator_actnum", ID)
+
+
+def _slot_text(form):
+    return "unknown" if form is None else form.fmt().replace("actuator_", "")
+
+
+def table_rule(res, pid, repo, cbs):
+    res.rule("R-TABLE", "PID: for every configuration (integral / slew state enabled or not) and dyntype the plugin "
+             "accepts, each controller state is loaded from and advanced in one activation slot actadr + k with "
+             "0 <= k < (number of own slots Pid::Create demands), distinct states use distinct slots, and no state "
+             "uses the engine's native slot actadr + actnum - 1", floor=3)
+    a2f = _attr_map(pid)
+    create = pid.fn("Pid", "Create")
+    from .. import ctypeinfo
+    dyns = [e for e, _v in ctypeinfo.enum_values("mjtDyn", repo)]
+    if "mjDYN_NONE" not in dyns:
+        raise AnalysisError("mjtDyn has no enumerator mjDYN_NONE")
+    entries = [(slot, node) for slot, (kind, node, _line) in sorted(cbs.items())
+               if kind == "lambda" and _mjdata_act_reach(pid, node)]
+    if not entries:
+        raise AnalysisError("no registered callback of the PID plugin reaches d->act / d->act_dot (anchor moved)")
+
+    def analyse(assign, dyn):
+        it = SlotInterp(pid, a2f, assign, dyn)
+        it.stack.append(create.key)
+        outs = it.block(cir.kids(cir.body(create.node)), {})
+        it.stack.pop()
+        nums = set()
+        accepted = False
+        for kind, env, val in outs:
+            if kind != "R" or val is NULL:
+                continue
+            accepted = True
+            eqs = [d for d, op in env.get("$pc", ()) if op == "==" and N_SYM in d.t]
+            if not eqs:
+                raise AnalysisError(f"{create.key}: a path that accepts the model does not pin actuator_actnum of the "
+                                    f"plugin's actuators — the number of own activation slots cannot be derived")
+            for d in eqs:
+                k = d.t[N_SYM]
+                rest = LF({s: v for s, v in d.t.items() if s != N_SYM}, d.c)
+                if abs(k) != 1 or rest.const is None:
+                    raise AnalysisError(f"{create.key}: actuator_actnum is pinned by `{d.fmt()} == 0`, not by a constant")
+                nums.add(-rest.const * k)
+        if not accepted:
+            return None
+        if len(nums) != 1:
+            raise AnalysisError(f"{create.key}: accepting paths pin actuator_actnum to different values {sorted(nums)}")
+        it.loads, it.writes = [], []
+        for slot, node in entries:
+            it.stack.append(f"callback:{slot}")
+            it.block(cir.kids(node) if node.get("k") == "CompoundStmt" else [node], {})
+            it.stack.pop()
+        return nums.pop(), it.loads, it.writes
+
+    preds = []
+    while True:
+        try:
+            table = {}
+            for vals in itertools.product((False, True), repeat=len(preds)):
+                assign = dict(zip(preds, vals))
+                for dyn in dyns:
+                    table[(vals, dyn)] = analyse(assign, dyn)
+            break
+        except _NeedPred as e:
+            if e.pred in preds or len(preds) > 7:
+                raise AnalysisError(f"configuration predicates of the PID plugin could not be enumerated ({e.pred})")
+            preds.append(e.pred)
+
+    host, etu, native = _engine_native_slots(repo)
+    # ---- the size contract
+    extra_of, quirks = {}, []
+    for vals in itertools.product((False, True), repeat=len(preds)):
+        base = table[(vals, "mjDYN_NONE")]
+        if base is None:
+            continue
+        for dyn in dyns:
+            r = table[(vals, dyn)]
+            if r is None:
+                continue
+            extra_of.setdefault(dyn, set()).add(r[0] - base[0])
+    for dyn, ex in sorted(extra_of.items()):
+        if len(ex) != 1 or min(ex) < 0:
+            raise AnalysisError(f"{create.key}: the activation slots demanded beyond the dyntype-none count are not a "
+                                f"fixed non-negative number for {dyn}: {sorted(ex)}")
+    extra_of = {d: min(ex) for d, ex in extra_of.items()}
+    cite = {}
+    for dyn, ex in sorted(extra_of.items()):
+        tails = [(ln, f) for ln, f in native.get(dyn, ()) if _tail_anchored(f)]
+        if ex > 0:
+            if not tails:
+                raise AnalysisError(f"{create.key} grants {ex} extra activation slot(s) for {dyn}, but {host} ({etu}) does "
+                                    f"not write a slot counted from the end of the block for it — contract not understood")
+            cite[dyn] = tails[0][0]
+        elif tails and dyn != "mjDYN_NONE":
+            quirks.append(dyn)
+    res.extra["slot_contract"] = {
+        "predicates": [f"{k}:{f}" for k, f in preds],
+        "native_slots_granted_by_Create": {d: e for d, e in sorted(extra_of.items())},
+        "engine_native_write": {d: f"{etu}:{ln}" for d, ln in sorted(cite.items())},
+        "dyntypes_with_engine_tail_write_but_no_extra_slot": quirks,
+    }
+    res.ok("R-TABLE", "pid:actnum-contract", {"extra": {d: e for d, e in sorted(extra_of.items())}, "engine": host})
+
+    # ---- the slots
+    bad = {}      # construct -> (line, message)   (first finding per construct)
+    seen_fields, seen_writes = set(), 0
+
+    def report(c, node, msg):
+        bad.setdefault(c, (node.get("line") if node is not None else create.line, msg))
+
+    def describe(vals, dyn, own, num):
+        on = [f for (k, f), v in zip(preds, vals) if v]
+        return (f"with {{{', '.join(on) or 'no optional state'}}} configured and dyntype {dyn} ({create.key} demands "
+                f"actnum = {num}: {own} own slot(s){' + 1 native' if num > own else ''})")
+
+    for vals in itertools.product((False, True), repeat=len(preds)):
+        base = table[(vals, "mjDYN_NONE")]
+        if base is None:
+            continue
+        own = base[0]
+        for dyn in dyns:
+            r = table[(vals, dyn)]
+            if r is None or (dyn in quirks):
+                continue
+            num, loads, writes = r
+            where = describe(vals, dyn, own, num)
+
+            def offset(form, c, node, what):
+                if form is None:
+                    raise AnalysisError(f"{what} (line {node.get('line')}): the slot index could not be evaluated")
+                rel = form.subst(N_SYM, LF(c=num)).plus(LF({A_SYM: 1}), -1)
+                if rel.const is None:
+                    if all(s[0] in ("arr", "id", "m") for s in rel.t):
+                        report(c, node, f"{what} uses slot `{_slot_text(form)}`, which is not at a fixed offset from the "
+                                        f"actuator's own actuator_actadr {where}")
+                        return None
+                    raise AnalysisError(f"{what} (line {node.get('line')}): slot `{_slot_text(form)}` depends on values "
+                                        f"that could not be evaluated")
+                k = rel.const
+                if num > own and k == num - 1:
+                    report(c, node, f"{what} uses slot `{_slot_text(form)}` = actadr + {k} {where}: that is the engine's "
+                                    f"native activation slot actadr + actnum - 1 ({host} writes act_dot there for {dyn}, "
+                                    f"{etu}:{cite.get(dyn)}); the plugin's own slots are [actadr, actadr + {own})")
+                elif k < 0 or k >= own:
+                    report(c, node, f"{what} uses slot `{_slot_text(form)}` = actadr + {k} {where}: outside the plugin's "
+                                    f"own slots [actadr, actadr + {own})")
+                return k
+
+            by_field = {}
+            for fld, form, node, fk in loads:
+                seen_fields.add(fld)
+                k = offset(form, f"pid:state-slot:{fld}", node, f"{fk} loads State.{fld} from d->act: it")
+                by_field.setdefault(fld, set()).add((k, form))
+            for fld, ks in by_field.items():
+                if len(ks) > 1:
+                    report(f"pid:state-slot:{fld}", None, f"State.{fld} is loaded from different slots "
+                                                           f"{sorted(_slot_text(f) for _k, f in ks)} {where}")
+            owner = {}
+            for fld, ks in sorted(by_field.items()):
+                for k, form in ks:
+                    if k is None:
+                        continue
+                    if k in owner and owner[k] != fld:
+                        report(f"pid:state-slot:{fld}", None, f"State.{fld} and State.{owner[k]} are both loaded from slot "
+                                                               f"actadr + {k} {where}")
+                    owner.setdefault(k, fld)
+            wrote = {}
+            for fld_, form, deps, node, fk in writes:
+                if fld_ != "act_dot":
+                    continue
+                seen_writes += 1
+                tags = {t for _f, t in deps if t not in (None, "@direct")}
+                role = STATE_INTEGRAL if STATE_INTEGRAL in tags else (next(iter(tags)) if len(tags) == 1 else None)
+                c = f"pid:state-slot:{role}" if role else f"pid:state-slot:{fk}:act_dot"
+                what = f"{fk} advances " + (f"State.{role}" if role else "a state") + " through d->act_dot: it"
+                k = offset(form, c, node, what)
+                if k is None:
+                    continue
+                if k in wrote and wrote[k] and role and wrote[k] != role:
+                    report(c, node, f"{fk} writes the derivatives of State.{wrote[k]} and of State.{role} to the same slot "
+                                    f"d->act_dot[actadr + {k}] {where}")
+                wrote[k] = wrote.get(k) or role
+                if role:
+                    for f2, t in deps:
+                        if t == role and f2 is not None and f2 != form:
+                            report(c, node, f"{fk} writes the derivative computed from State.{role} to slot "
+                                            f"`{_slot_text(form)}`, but State.{role} is loaded from slot "
+                                            f"`{_slot_text(f2)}` {where}")
+                for f2, t in deps:
+                    if t == "@direct" and f2 is not None and f2 != form:
+                        k2 = f2.subst(N_SYM, LF(c=num)).plus(LF({A_SYM: 1}), -1).const
+                        if k2 is not None and 0 <= k2 < own:
+                            report(c, node, f"{fk} computes the derivative of slot `{_slot_text(form)}` from the current "
+                                            f"value of another own slot `{_slot_text(f2)}` {where}")
+            if writes or loads:
+                for k, fld in sorted(owner.items()):
+                    if k not in wrote and 0 <= k < own and any(w[0] == "act_dot" for w in writes):
+                        report(f"pid:state-slot:{fld}", None, f"State.{fld} is loaded from slot actadr + {k} but no "
+                                                               f"callback writes that slot's act_dot {where}: the state "
+                                                               f"never advances")
+    if STATE_INTEGRAL not in seen_fields or len(seen_fields) < 2 or not seen_writes:
+        raise AnalysisError(f"state-slot accesses not found: State fields loaded from d->act {sorted(seen_fields)}, "
+                            f"act_dot writes {seen_writes} (anchor moved)")
+    constructs = {f"pid:state-slot:{f}" for f in seen_fields} | set(bad)
+    for c in sorted(constructs):
+        if c in bad:
+            res.bad("R-TABLE", c, pid.rel, bad[c][0], bad[c][1])
+        else:
+            res.ok("R-TABLE", c, {"combinations": len(table)})
+    res.count("slot_combinations", len(table))
 
 
 # ---------------------------------------------------------------------------------------------------------------
@@ -1468,6 +2502,706 @@ def indexdim_rule(res, tus, repo):
 
 
 # ---------------------------------------------------------------------------------------------------------------
+# R-BOUNDS-AGREE: the two operands of the cable's curvature difference have the same norm bound
+#
+# The cable's stress is stiffness * (omega - omega0): omega is the rotation vector of the current relative orientation,
+# omega0 the rotation vector of the reference orientation, stored once by the constructor.  The force vanishes in the
+# reference configuration only if both are obtained by the same map quaternion -> rotation vector, for EVERY reference
+# orientation the compiler can produce.  A necessary condition that needs no arithmetic reasoning about that map: both
+# maps have the same least upper bound of the vector norm (the rotation angle): if sup|omega| > sup|omega0| there is an
+# orientation whose run-time curvature has a norm the reference curvature can never have, so their difference — the
+# stress in the stress-free configuration — is not zero.  The bounds are computed by interval abstract interpretation
+# of the code that produces each operand (the plugin functions and, from the engine sources, the bodies of the
+# engine functions they call), with summaries only for the leaf primitives listed in _LEAF.  Single-variable affine
+# maps and threshold conditionals are evaluated exactly (the interval is split at the threshold), so a difference of
+# the bounds is definite; anything else (products of two unknowns, loops over the operand) is "cannot decide".
+
+_INF = float("inf")
+_PI = 3.141592653589793
+SPATIAL_TUS = ("src/engine/engine_util_spatial.c", "src/engine/engine_util_blas.c")
+
+
+class Iv:
+    """Closed interval of a floating-point value.  exact: the interval is the exact range of the value when the unknown
+    inputs (quaternion components, ...) range over all reals independently — only then is its supremum attained."""
+    __slots__ = ("lo", "hi", "exact")
+
+    def __init__(self, lo, hi=None, exact=True):
+        self.lo, self.hi, self.exact = lo, (lo if hi is None else hi), exact
+
+    def hull(self, o):
+        return Iv(min(self.lo, o.lo), max(self.hi, o.hi), self.exact and o.exact)
+
+    def scale(self, k):
+        a, b = (0.0 if self.lo == 0 else self.lo * k), (0.0 if self.hi == 0 else self.hi * k)
+        if k == 0:
+            a = b = 0.0
+        return Iv(min(a, b), max(a, b), self.exact)
+
+    def abs(self):
+        if self.lo >= 0:
+            return Iv(self.lo, self.hi, self.exact)
+        if self.hi <= 0:
+            return Iv(-self.hi, -self.lo, self.exact)
+        return Iv(0.0, max(-self.lo, self.hi), self.exact)
+
+    @property
+    def point(self):
+        return self.lo if self.lo == self.hi else None
+
+    def __repr__(self):
+        return f"[{self.lo:.6g}, {self.hi:.6g}]" + ("" if self.exact else "~")
+
+
+class Vec:
+    """A 3-vector known only by an interval for its Euclidean norm (None: nothing known)."""
+
+    def __init__(self, norm=None):
+        self.norm = norm
+
+
+_LEAF = {
+    # name: summary (engine_util_blas.c / engine_inline.h; mju_atan2 is the macro for atan2)
+    "mju_normalize3": "normalize3", "mji__normalize3": "normalize3", "mji_normalize3": "normalize3",
+    "mju_scl3": "scl3", "mji_scl3": "scl3",
+    "mju_zero3": "zero", "mji_zero3": "zero", "mju_zero": "zero",
+    "mju_copy3": "copy", "mji_copy3": "copy",
+    "atan2": "atan2", "mju_atan2": "atan2",
+}
+
+
+class _Stop(Exception):
+    pass
+
+
+class NormInterp:
+    """Interval interpreter for straight-line numeric code with threshold conditionals (C and C++ IR alike)."""
+
+    def __init__(self, bodies):
+        self.bodies = bodies          # {function name: function node with a body}   (engine + plugin TU)
+        self.depth = 0
+        self.branch = 0               # > 0 inside a conditional: a fresh unknown read there may be correlated with the
+        self.stop = None              #       condition, its "any real" range is then not exact
+        self.snapshot = None
+
+    def _any(self):
+        return Iv(-_INF, _INF, self.branch == 0)
+
+    # ---- values
+    def _copy_env(self, env):
+        return {k: (Vec(v.norm) if isinstance(v, Vec) else v) for k, v in env.items()}
+
+    def _join_into(self, env, envs, before=None):
+        """Join the forked environments back into `env` (Vec objects of env are updated in place: they may be aliased).
+        before: the environment at the fork of an *unmodelled* condition — whatever a branch changed is inexact."""
+        for k in list(env):
+            vals = [e.get(k) for e in envs]
+            cur = env[k]
+            if isinstance(cur, Vec):
+                norms = [v.norm if isinstance(v, Vec) else None for v in vals]
+                if any(x is None for x in norms):
+                    cur.norm = None
+                else:
+                    h = norms[0]
+                    for x in norms[1:]:
+                        h = h.hull(x)
+                    if before is not None and any(x is not before[k].norm for x in norms):
+                        h = Iv(h.lo, h.hi, False)
+                    cur.norm = h
+            elif all(isinstance(v, Iv) for v in vals):
+                h = vals[0]
+                for x in vals[1:]:
+                    h = h.hull(x)
+                if before is not None and any(x is not before.get(k) for x in vals):
+                    h = Iv(h.lo, h.hi, False)
+                env[k] = h
+            else:
+                env[k] = None
+        for e in envs:
+            for k, v in e.items():
+                if k not in env:
+                    env[k] = v
+
+    def _vec_of(self, n, env):
+        """The tracked vector an expression designates (array / pointer variable), else None."""
+        s = cir.strip(n)
+        if s is not None and s.get("k") == "DeclRefExpr":
+            v = env.get((s.get("ref") or {}).get("id"))
+            return v if isinstance(v, Vec) else None
+        return None
+
+    # ---- expressions: always an Iv
+    def eval(self, n, env):
+        s = cir.strip(n)
+        if s is None:
+            return self._any()
+        k = s.get("k")
+        if k in ("IntegerLiteral", "FloatingLiteral"):
+            try:
+                return Iv(float(int(str(s.get("v")), 0)) if k == "IntegerLiteral" else float(s.get("v")))
+            except (TypeError, ValueError):
+                return self._any()
+        if k == "DeclRefExpr":
+            v = env.get((s.get("ref") or {}).get("id"))
+            return v if isinstance(v, Iv) else self._any()
+        if k == "ArraySubscriptExpr":
+            v = self._vec_of(cir.kids(s)[0], env)
+            self.eval(cir.kids(s)[1], env)
+            if v is not None and v.norm is not None:
+                return Iv(-v.norm.hi, v.norm.hi, False)
+            return self._any()
+        if k == "UnaryOperator":
+            v = self.eval(cir.kids(s)[0], env)
+            if s.get("op") == "-":
+                return v.scale(-1)
+            if s.get("op") == "+":
+                return v
+            return self._any()
+        if k == "BinaryOperator":
+            op = s.get("op")
+            if op == "=":
+                return self._assign(s, env)
+            a, b = (self.eval(x, env) for x in cir.kids(s))
+            return self._arith(op, a, b)
+        if k == "CompoundAssignOperator":
+            l = cir.strip(cir.kids(s)[0])
+            b = self.eval(cir.kids(s)[1], env)
+            if l is not None and l.get("k") == "DeclRefExpr":
+                vid = (l.get("ref") or {}).get("id")
+                cur = env.get(vid)
+                if not isinstance(cur, Vec):
+                    env[vid] = self._arith((s.get("op") or "")[:-1], cur if isinstance(cur, Iv) else self._any(), b)
+                    return env[vid]
+            self._clobber(l, env)
+            return self._any()
+        if k == "ConditionalOperator":
+            c, a, b = cir.kids(s)
+            self.eval(c, env)
+            self.branch += 1
+            try:
+                va, vb = self.eval(a, env), self.eval(b, env)
+            finally:
+                self.branch -= 1
+            h = va.hull(vb)
+            return Iv(h.lo, h.hi, False)
+        if cir.is_call(s):
+            return self._call(s, env)
+        for x in cir.kids(s):
+            if x is not None and x.get("k") != "CompoundStmt":
+                self.eval(x, env)
+        return self._any()
+
+    def _arith(self, op, a, b):
+        if op in ("+", "-"):
+            k = 1 if op == "+" else -1
+            o = b if k > 0 else b.scale(-1)
+            ok = a.exact and b.exact and (a.point is not None or b.point is not None)
+            return Iv(a.lo + o.lo, a.hi + o.hi, ok)
+        if op == "*":
+            if a.point is not None and a.exact:
+                return b.scale(a.point)
+            if b.point is not None and b.exact:
+                return a.scale(b.point)
+            if _INF not in (abs(a.lo), abs(a.hi), abs(b.lo), abs(b.hi)):
+                c = [a.lo * b.lo, a.lo * b.hi, a.hi * b.lo, a.hi * b.hi]
+                return Iv(min(c), max(c), False)        # sound, but the factors may be correlated: not exact
+        if op == "/":
+            if b.point and b.exact:
+                return a.scale(1.0 / b.point)
+        return Iv(-_INF, _INF, False)
+
+    def _clobber(self, lhs, env):
+        """An element of a tracked vector is assigned: its norm is no longer known."""
+        l = cir.strip(lhs)
+        while l is not None and l.get("k") in ("ArraySubscriptExpr", "UnaryOperator"):
+            l = cir.strip(cir.kids(l)[0])
+        v = self._vec_of(l, env) if l is not None else None
+        if v is not None:
+            v.norm = None
+
+    def _assign(self, s, env):
+        a, b = cir.kids(s)
+        v = self.eval(b, env)
+        l = cir.strip(a)
+        if l is not None and l.get("k") == "DeclRefExpr":
+            vid = (l.get("ref") or {}).get("id")
+            if not isinstance(env.get(vid), Vec):
+                env[vid] = v
+        else:
+            self._clobber(l, env)
+        return v
+
+    def _call(self, s, env):
+        name = cir.callee(s)
+        args = cir.args(s)
+        kind = _LEAF.get(name)
+        if kind == "atan2" and len(args) == 2:
+            y, x = self.eval(args[0], env), self.eval(args[1], env)
+            ok = y.exact and x.exact
+            if y.lo >= 0:
+                if x.lo >= 0:
+                    return Iv(0.0, _PI / 2, ok)
+                if x.hi <= 0:
+                    return Iv(_PI / 2, _PI, ok)
+                return Iv(0.0, _PI, ok)
+            if y.hi <= 0:
+                return Iv(-_PI, 0.0, ok)
+            return Iv(-_PI, _PI, ok)
+        if kind == "normalize3" and len(args) == 1:
+            v = self._vec_of(args[0], env)
+            ret = Iv(0.0, _INF, self.branch == 0)
+            if v is not None:
+                if v.norm is not None:
+                    ret = v.norm
+                v.norm = Iv(1.0, 1.0, True)
+            return ret
+        if kind == "scl3" and len(args) == 3:
+            r, v = self._vec_of(args[0], env), self._vec_of(args[1], env)
+            k = self.eval(args[2], env)
+            if r is not None:
+                src = v.norm if v is not None else None
+                if src is None:
+                    r.norm = None
+                else:
+                    ka = k.abs()
+                    hi = 0.0 if (ka.hi == 0 or src.hi == 0) else (_INF if _INF in (ka.hi, src.hi) else src.hi * ka.hi)
+                    lo = 0.0 if (ka.lo == 0 or src.lo == 0) else (_INF if _INF in (ka.lo, src.lo) else src.lo * ka.lo)
+                    r.norm = Iv(lo, hi, src.exact and k.exact and (src.point is not None or k.point is not None))
+            return self._any()
+        if kind == "zero":
+            r = self._vec_of(args[0], env) if args else None
+            for a in args[1:]:
+                self.eval(a, env)
+            if r is not None:
+                r.norm = Iv(0.0, 0.0, True)
+            return self._any()
+        if kind == "copy" and len(args) == 2:
+            r, v = self._vec_of(args[0], env), self._vec_of(args[1], env)
+            if r is not None:
+                r.norm = None if v is None or v.norm is None else Iv(v.norm.lo, v.norm.hi, v.norm.exact)
+            return self._any()
+        h = self.bodies.get(name)
+        if h is not None and cir.body(h) is not None and self.depth < 6 and len(cir.params(h)) == len(args):
+            vals = []
+            for a in args:
+                v = self._vec_of(a, env)
+                vals.append(v if v is not None else self.eval(a, env))
+            r = self.run(h, vals)
+            return r if r is not None else self._any()
+        # unknown callee: whatever tracked vector it may write is unknown afterwards
+        ce = cir.callee_expr(s)
+        pts = modref._param_types((ce.get("ref") or {}).get("t") if ce is not None and ce.get("k") == "DeclRefExpr" else None)
+        for i, a in enumerate(args):
+            v = self._vec_of(a, env)
+            if v is not None and not (i < len(pts) and modref._const_pointee(pts[i])):
+                v.norm = None
+            elif v is None:
+                self.eval(a, env)
+        return Iv(-_INF, _INF, False)
+
+    # ---- statements
+    def run(self, fn, vals, stop=None):
+        """Interpret a function; vals: per parameter a Vec (aliased) or an Iv.  Returns the interval of the value
+        returned (None when void / unknown).  With `stop` (a node): the environment when the statement containing that
+        node is reached is kept in self.snapshot and interpretation ends (_Stop)."""
+        env = {}
+        for p_, v in zip(cir.params(fn), vals):
+            if p_.get("id"):
+                ptr = "*" in (p_.get("t") or "") or "[" in (p_.get("t") or "")
+                if ptr and not isinstance(v, Vec):
+                    v = Vec(None)
+                env[p_["id"]] = v
+        self.depth += 1
+        old = self.stop
+        if stop is not None:
+            self.stop = stop
+        try:
+            rets = []
+            self.block(cir.kids(cir.body(fn)), env, rets)
+        finally:
+            self.depth -= 1
+            self.stop = old
+        if rets and all(isinstance(r, Iv) for r in rets):
+            h = rets[0]
+            for r in rets[1:]:
+                h = h.hull(r)
+            return h
+        return None
+
+    _NESTING = ("CompoundStmt", "IfStmt", "ForStmt", "WhileStmt", "DoStmt", "CXXForRangeStmt", "SwitchStmt")
+
+    def block(self, stmts, env, rets):
+        for st in stmts:
+            if st is None:
+                continue
+            if self.stop is not None and self.depth == 1 and st.get("k") not in self._NESTING and \
+                    any(x is self.stop for x in cir.walk(st)):
+                self.snapshot = env
+                raise _Stop()
+            if self.stmt(st, env, rets):
+                return True
+        return False
+
+    def stmt(self, n, env, rets):
+        """Returns True when control certainly left the function (return on every path)."""
+        k = n.get("k")
+        if k == "CompoundStmt":
+            return self.block(cir.kids(n), env, rets)
+        if k == "DeclStmt":
+            for v in cir.kids(n):
+                if v is None or v.get("k") != "VarDecl" or not v.get("id"):
+                    continue
+                t = v.get("t") or ""
+                init = [c for c in cir.kids(v) if c is not None and not (c.get("k") or "").endswith("Attr")]
+                if "[" in t or "*" in t:
+                    if init:
+                        src = self._vec_of(init[-1], env)
+                        if src is not None and "*" in t:
+                            env[v["id"]] = src          # a pointer to a tracked vector: alias
+                            continue
+                        s0 = cir.strip(init[-1])
+                        for x in cir.kids(s0) if s0 is not None else ():
+                            if x is not None:
+                                self.eval(x, env)
+                        env[v["id"]] = Vec(Iv(0.0, _INF, self.branch == 0)
+                                           if s0 is not None and s0.get("k") == "InitListExpr" else None)
+                    else:
+                        env[v["id"]] = Vec(None)
+                else:
+                    env[v["id"]] = self.eval(init[-1], env) if init else self._any()
+            return False
+        if k == "ReturnStmt":
+            c = [x for x in cir.kids(n) if x is not None]
+            rets.append(self.eval(c[0], env) if c else None)
+            return True
+        if k == "IfStmt":
+            return self._if(n, env, rets)
+        if k in ("ForStmt", "WhileStmt", "DoStmt", "CXXForRangeStmt", "SwitchStmt"):
+            if self.stop is not None and self.depth == 1 and any(x is self.stop for x in cir.walk(n)):
+                raise AnalysisError("the curvature difference sits inside a loop or switch of its function: the operands' "
+                                    "bounds cannot be evaluated there")
+            # conservative: everything the construct assigns or hands to a call is unknown afterwards
+            for x in cir.walk(n):
+                kk = x.get("k")
+                if (kk == "BinaryOperator" and x.get("op") == "=") or kk == "CompoundAssignOperator" or \
+                        (kk == "UnaryOperator" and x.get("op") in ("++", "--")):
+                    l = cir.strip(cir.kids(x)[0])
+                    if l is not None and l.get("k") == "DeclRefExpr":
+                        vid = (l.get("ref") or {}).get("id")
+                        if isinstance(env.get(vid), Vec):
+                            env[vid].norm = None
+                        else:
+                            env[vid] = Iv(-_INF, _INF, False)
+                    else:
+                        self._clobber(l, env)
+                elif cir.is_call(x):
+                    for a in cir.args(x):
+                        v = self._vec_of(a, env)
+                        if v is not None:
+                            v.norm = None
+            return False
+        if k in ("NullStmt", "BreakStmt", "ContinueStmt"):
+            return False
+        self.eval(n, env)
+        return False
+
+    def _threshold(self, cond, env):
+        """(var id, op, constant) for `v <op> c` / `c <op> v` on a scalar variable compared with a constant."""
+        s = cir.strip(cond)
+        if s is None or s.get("k") != "BinaryOperator" or s.get("op") not in ("<", "<=", ">", ">="):
+            return None
+        a, b = (cir.strip(x) for x in cir.kids(s))
+        flip = {"<": ">", "<=": ">=", ">": "<", ">=": "<="}
+        for x, y, op in ((a, b, s["op"]), (b, a, flip[s["op"]])):
+            if x is not None and x.get("k") == "DeclRefExpr":
+                vid = (x.get("ref") or {}).get("id")
+                c = self.eval(y, self._copy_env(env))
+                if isinstance(env.get(vid), Iv) and c.point is not None and c.exact:
+                    return vid, op, c.point
+        return None
+
+    def _if(self, n, env, rets):
+        c = list(cir.kids(n))
+        idx = (1 if n.get("hasInit") else 0) + (1 if n.get("hasVar") else 0)
+        for pre in c[:idx]:
+            if pre is not None:
+                self.stmt(pre, env, rets)
+        cond = c[idx]
+        then = c[idx + 1] if len(c) > idx + 1 else None
+        els = c[idx + 2] if len(c) > idx + 2 else None
+        th = self._threshold(cond, env)
+        if th is None:
+            self.eval(cond, env)
+        e1, e2 = self._copy_env(env), self._copy_env(env)
+        before = None
+        if th is not None:
+            vid, op, cst = th
+            cur = env[vid]
+            if op in (">", ">="):
+                t_iv = Iv(max(cur.lo, cst), cur.hi, cur.exact) if cur.hi >= cst else None
+                f_iv = Iv(cur.lo, min(cur.hi, cst), cur.exact) if cur.lo <= cst else None
+            else:
+                t_iv = Iv(cur.lo, min(cur.hi, cst), cur.exact) if cur.lo <= cst else None
+                f_iv = Iv(max(cur.lo, cst), cur.hi, cur.exact) if cur.hi >= cst else None
+            if t_iv is not None:
+                e1[vid] = t_iv
+            if f_iv is not None:
+                e2[vid] = f_iv
+            branches = [(then, e1, t_iv is not None), (els, e2, f_iv is not None)]
+        else:
+            before = self._copy_env(env)
+            e1, e2 = self._copy_env(before), self._copy_env(before)
+            branches = [(then, e1, True), (els, e2, True)]
+        live = []
+        self.branch += 1
+        try:
+            for body, e, feasible in branches:
+                if not feasible:
+                    continue
+                left = self.stmt(body, e, rets) if body is not None else False
+                if not left:
+                    live.append(e)
+        finally:
+            self.branch -= 1
+        if not live:
+            return True
+        self._join_into(env, live, before)
+        return False
+
+
+def _engine_bodies(repo):
+    from .. import engine
+    out = {}
+    for tu in SPATIAL_TUS:
+        if not os.path.exists(os.path.join(repo, tu)):
+            raise AnalysisError(f"{tu} vanished")
+        u = engine.unit(tu, repo)
+        for name, fn in u.funcs.items():
+            if cir.body(fn) is not None:
+                out.setdefault(name, fn)
+    return out
+
+
+def _ptr_base(n):
+    """The variable / member an array-element or pointer expression is based on: DeclRefExpr node, ('member', name) or
+    None.  x[i], x + k, &x[i], x.data() + k, this->x[i]."""
+    s = cir.strip(n)
+    while s is not None:
+        k = s.get("k")
+        if k == "ArraySubscriptExpr":
+            s = cir.strip(cir.kids(s)[0])
+        elif k == "UnaryOperator" and s.get("op") in ("&", "*"):
+            s = cir.strip(cir.kids(s)[0])
+        elif k == "BinaryOperator" and s.get("op") in ("+", "-"):
+            a, b = (cir.strip(x) for x in cir.kids(s))
+            pa = a is not None and ("*" in (a.get("t") or "") or "[" in (a.get("t") or ""))
+            s = a if pa else b
+        elif k == "CXXMemberCallExpr":
+            f = cir.strip(cir.kids(s)[0])
+            if f is not None and f.get("k") == "MemberExpr" and f.get("n") in ("data", "begin") and cir.kids(f):
+                s = cir.strip(cir.kids(f)[0])
+            else:
+                return None
+        elif k == "CXXOperatorCallExpr":
+            c = cir.kids(s)
+            f = cir.strip(c[0]) if c else None
+            if f is not None and (f.get("ref") or {}).get("n") == "operator[]" and len(c) >= 2:
+                s = cir.strip(c[1])
+            else:
+                return None
+        elif k == "MemberExpr":
+            b = cir.strip(cir.kids(s)[0]) if cir.kids(s) else None
+            if b is not None and b.get("k") == "CXXThisExpr":
+                return ("member", s.get("n"))
+            return None
+        elif k == "DeclRefExpr":
+            return s
+        else:
+            return None
+    return None
+
+
+def bounds_rule(res, cable, repo):
+    res.rule("R-BOUNDS-AGREE", "cable: in every difference of two vector elements of which one is a bounded rotation "
+             "vector (the curvature omega and the stored reference curvature omega0), both operands have the same least "
+             "upper bound of the norm — computed by interval interpretation of the plugin code and of the engine "
+             "functions that produce them", floor=1)
+    bodies = _engine_bodies(repo)
+    tu_fns = {f.name: f for f in cable.fns() if cir.body(f.node) is not None}
+    all_bodies = dict(bodies)
+    for name, f in tu_fns.items():
+        all_bodies.setdefault(name, f.node)
+
+    # call sites of the TU's functions
+    sites = {}
+    for f in cable.fns():
+        for call in cir.calls(f.node):
+            info = cxx3.callee_info(call)
+            for g in (cable.resolver.targets(info, cable.rel, cxx3.call_nargs(call)) if info else []):
+                if g.file == cable.rel:
+                    sites.setdefault(id(g.node), []).append((f, call))
+
+    member_bound = {}
+
+    def bound_of_member(name):
+        """Norm bound of a member vector: join over everything in the TU that writes it (None: unknown)."""
+        if name in member_bound:
+            return member_bound[name]
+        member_bound[name] = None
+        norms, unknown, writers = [], False, 0
+        for f in cable.fns():
+            for x in cxx3.walk_outer(f.node):
+                if cir.is_call(x):
+                    ce = cir.callee_expr(x)
+                    # methods of the container itself: (re)sizing with zeros is neutral, anything else is unknown
+                    if x.get("k") == "CXXMemberCallExpr" and ce is not None and ce.get("k") == "MemberExpr" and \
+                            cir.kids(ce) and _ptr_base(cir.kids(ce)[0]) == ("member", name):
+                        m = ce.get("n")
+                        if m in ("assign", "resize"):
+                            a = cir.args(x)
+                            fill = NormInterp({}).eval(a[1], {}) if len(a) > 1 else Iv(0)
+                            writers += 1
+                            if fill is not None and fill.point == 0:
+                                norms.append(Iv(0, 0))
+                            else:
+                                unknown = True
+                        elif m in ("data", "size", "begin", "end", "empty", "at"):
+                            pass
+                        else:
+                            writers += 1
+                            unknown = True
+                        continue
+                    pts = modref._param_types((ce.get("ref") or {}).get("t") if ce is not None and
+                                              ce.get("k") == "DeclRefExpr" else None)
+                    for i, a in enumerate(cir.args(x)):
+                        if _ptr_base(a) != ("member", name) or "*" not in (cir.strip(a).get("t") or "*"):
+                            continue
+                        if i < len(pts) and modref._const_pointee(pts[i]):
+                            continue
+                        writers += 1
+                        it = NormInterp(all_bodies)
+                        target = Vec(None)
+                        env = {"$t": target}
+                        fake = {"k": "DeclRefExpr", "ref": {"id": "$t"}, "t": "mjtNum *"}
+                        call = dict(x)
+                        kids_ = list(cir.kids(x))
+                        off = len(kids_) - len(cir.args(x))
+                        kids_[off + i] = fake
+                        call["i"] = kids_
+                        it.depth = 1
+                        it._call(call, env)
+                        if target.norm is None:
+                            unknown = True
+                        else:
+                            norms.append(target.norm)
+                elif (x.get("k") == "BinaryOperator" and x.get("op") == "=") or x.get("k") == "CompoundAssignOperator":
+                    l = cir.strip(cir.kids(x)[0])
+                    if l is not None and l.get("k") in ("ArraySubscriptExpr", "CXXOperatorCallExpr", "UnaryOperator") and \
+                            _ptr_base(l) == ("member", name):
+                        writers += 1
+                        unknown = True
+        if writers and not unknown and norms:
+            h = norms[0]
+            for x in norms[1:]:
+                h = h.hull(x)
+            member_bound[name] = h
+        return member_bound[name]
+
+    def param_binding(f, idx, seen=()):
+        """The member vector every call site binds parameter idx of f to (None: several / unknown)."""
+        cs = sites.get(id(f.node)) or []
+        got = set()
+        for caller, call in cs:
+            a = cir.args(call)
+            if idx >= len(a):
+                return None
+            b = _ptr_base(a[idx])
+            if isinstance(b, tuple):
+                got.add(b[1])
+            elif b is not None and (b.get("ref") or {}).get("k") == "ParmVarDecl" and (caller.key, idx) not in seen:
+                ps = cir.params(caller.node)
+                j = next((i for i, p_ in enumerate(ps) if p_.get("id") == b["ref"].get("id")), None)
+                r = param_binding(caller, j, seen + ((caller.key, idx),)) if j is not None else None
+                if r is None:
+                    return None
+                got.add(r)
+            else:
+                return None
+        return got.pop() if len(got) == 1 else None
+
+    nsite = 0
+    for f in cable.fns():
+        if cir.body(f.node) is None:
+            continue
+        cands = []
+        for x in cxx3.walk_outer(cir.body(f.node)):
+            if x.get("k") == "BinaryOperator" and x.get("op") == "-":
+                a, b = (cir.strip(y) for y in cir.kids(x))
+                if a is not None and b is not None and a.get("k") == "ArraySubscriptExpr" and b.get("k") == "ArraySubscriptExpr":
+                    ba, bb = _ptr_base(a), _ptr_base(b)
+                    if ba is not None and bb is not None and not isinstance(ba, tuple) and not isinstance(bb, tuple):
+                        cands.append((x, ba, bb))
+        done = set()
+        for x, ba, bb in cands:
+            key = ((ba.get("ref") or {}).get("id"), (bb.get("ref") or {}).get("id"))
+            if key in done:
+                continue
+            done.add(key)
+            ps = cir.params(f.node)
+            vals, names = [], {}
+            for i, p_ in enumerate(ps):
+                t = p_.get("t") or ""
+                if "*" in t or "[" in t:
+                    mname = param_binding(f, i)
+                    names[p_.get("id")] = mname
+                    vals.append(Vec(bound_of_member(mname)) if mname else Vec(None))
+                else:
+                    vals.append(None)
+            it = NormInterp(all_bodies)
+            try:
+                it.run(f.node, vals, stop=x)
+            except _Stop:
+                pass
+            env = it.snapshot
+            if env is None:
+                continue
+            va, vb = env.get(key[0]), env.get(key[1])
+            na = va.norm if isinstance(va, Vec) else None
+            nb = vb.norm if isinstance(vb, Vec) else None
+            good = [n_ for n_ in (na, nb) if n_ is not None and 0 < n_.hi < _INF]
+            if not good:
+                continue
+            nsite += 1
+            an, bn = (ba.get("ref") or {}).get("n"), (bb.get("ref") or {}).get("n")
+            roles = []
+            for nm, vid in ((an, key[0]), (bn, key[1])):
+                roles.append(f"member {names[vid]}" if names.get(vid) else "local")
+            c = f"{f.key}:difference:{roles[0].replace(' ', '-')}~{roles[1].replace(' ', '-')}"
+            if len(good) == 1 or na is None or nb is None or not (na.hi < _INF and nb.hi < _INF):
+                raise AnalysisError(f"{f.key} (line {x.get('line')}): `{cir.text(x)}` subtracts a bounded rotation vector and "
+                                    f"a vector whose norm bound could not be evaluated ({an}: {na}, {bn}: {nb}) — cannot "
+                                    f"decide whether the two are the same map of the orientation")
+            if abs(na.hi - nb.hi) > 1e-9 and not (na.exact and nb.exact):
+                raise AnalysisError(f"{f.key} (line {x.get('line')}): `{cir.text(x)}`: the norm bounds of the operands differ "
+                                    f"({an}: {na}, {bn}: {nb}; ~ = over-approximated) but were not computed exactly — "
+                                    f"cannot decide whether the two are the same map of the orientation")
+            if abs(na.hi - nb.hi) > 1e-9:
+                big, small = ((an, na), (bn, nb)) if na.hi > nb.hi else ((bn, nb), (an, na))
+                res.bad("R-BOUNDS-AGREE", c, f.file, x.get("line"),
+                        f"`{cir.text(x)}`: |{big[0]}| can reach {big[1].hi:.6g} but |{small[0]}| never exceeds "
+                        f"{small[1].hi:.6g} ({roles[0]} / {roles[1]}): for an orientation whose rotation angle lies in "
+                        f"({small[1].hi:.6g}, {big[1].hi:.6g}] the two rotation vectors cannot be equal, so the difference "
+                        f"— the stress in the stress-free configuration — does not vanish")
+            else:
+                res.ok("R-BOUNDS-AGREE", c, {"sup_norm": round(na.hi, 9), "operands": [an, bn],
+                                             "exact": bool(na.exact and nb.exact)})
+    if not nsite:
+        raise AnalysisError("no difference of a bounded rotation vector found in the cable plugin (anchor moved: the "
+                            "curvature omega - omega0)")
+    res.count("curvature_differences", nsite)
+
+
+# ---------------------------------------------------------------------------------------------------------------
 
 
 def run(res, tier):
@@ -1477,25 +3211,32 @@ def run(res, tier):
     res.count("tus", 3)
     res.count("functions", sum(len(t.fns()) for t in tus.values()))
     clip_rules(res, tus["pid"])
-    table_rule(res, tus["pid"])
+    table_rule(res, tus["pid"], repo, _callbacks(tus["pid"], tus["pid"].fn("Pid", "RegisterPlugin")))
     who_writes_rule(res, tus)
     indexdim_rule(res, tus, repo)
+    bounds_rule(res, tus["cable"], repo)
     res.explanation = (
         "Static analysis of the PID and cable plugins from clang's typed AST. R-MUSTPASS: all-paths exploration (throw/"
         "return end a path) of the canonical view of each method (TU helper functions and lambdas expanded in place) "
         "with the optional's has_value() as a tracked predicate; the integral / setpoint is tracked as a value (copies, "
         "?:, helper results), the clip must be mju_clip of that value with the structurally matched bounds. R-SIBLING: "
         "alpha-normalised expression/guard text on the nested view. "
-        "R-TABLE: guard keys resolved to PidConfig fields through PidConfig::FromModel's attribute map, so the static "
-        "slot counter (which reads attributes) and the members (which read config_) are comparable. R-WHO-WRITES: "
+        "R-TABLE: abstract interpretation of the callbacks (linear forms over actuator_actadr/actnum, configuration "
+        "predicates and dyntype enumerated); own-slot count and native slot derived from the accepting paths of "
+        "Pid::Create and from mj_fwdActuation's native act_dot writes. R-BOUNDS-AGREE: interval interpretation of the "
+        "code producing omega and omega0 (plugin + engine bodies), exactness tracked. R-WHO-WRITES: "
         "field-level mod events over the callback closure inside the TU. R-INDEXDIM: row dimensions from the X-macro "
         "tables, address arrays from MJMODEL_REFERENCES, index provenance through locals, parameters (all call sites) "
         "and loops.")
-    res.not_decided = ("the arithmetic of the PID law; that the cable force vanishes in the stress-free configuration; "
-                       "effects of engine functions called with the whole mjData beyond the listed ones.")
+    res.not_decided = ("the arithmetic of the PID law; that the cable force vanishes in the stress-free configuration "
+                       "beyond the agreement of the norm bounds of omega and omega0; the order of the plugin's own "
+                       "activation slots; effects of engine functions called with the whole mjData beyond the listed ones.")
     res.assumptions = ["engine functions listed in ENGINE_EFFECTS have the stated effect on mjData",
                        "every caller of mj_initPlugin resets or overwrites mjData afterwards (read in engine_io.c, "
-                       "user_model.cc)"]
+                       "user_model.cc)",
+                       "leaf summaries of NormInterp: mju_normalize3 leaves a unit vector and returns a norm >= 0, "
+                       "mju_scl3 scales the norm by |scl|, atan2(y >= 0, x) lies in [0, pi], mju_zero3 / mju_copy3",
+                       "config_.X and the attribute PidConfig::FromModel stores into X are the same configuration value"]
 
 
 # ---------------------------------------------------------------------------------------------------------------
@@ -1533,7 +3274,7 @@ MUTANTS = [
                 "      d->act_dot[state_idx] = (integral - d->act[state_idx]) / m->opt.timestep;")]},
     {"id": "drop-slew-clip", "group": "A", "expect": ("R-MUSTPASS", "Pid::GetCtrl:slew-limit"),
      "edits": [(PID_TU, "    ctrl = mju_clip(ctrl, ctrl_min, ctrl_max);\n", "")]},
-    {"id": "swap-state-slots", "group": "A", "expect": ("R-TABLE", "slot-sequence"),
+    {"id": "swap-state-slots", "group": "A", "expect": ("R-TABLE", "pid:state-slot:"),
      "edits": [(PID_TU, _GETSTATE_I + _GETSTATE_S, _GETSTATE_S + _GETSTATE_I)]},
     {"id": "cable-writes-qpos", "group": "A", "expect": ("R-WHO-WRITES", "cable:compute:mjData.qpos"),
      "edits": [(CABLE_TU, "    // elastic forces\n    mjtNum quat[4] = {0};", "    d->qpos[0] = 0;\n    // elastic forces\n    mjtNum quat[4] = {0};")]},
@@ -1552,7 +3293,7 @@ MUTANTS = [
     # ---- group C (must fire)
     {"id": "sibling-expression-differs", "group": "C", "expect": ("R-SIBLING", "integral"),
      "edits": [(PID_TU, "      integral = state.integral + error * m->opt.timestep;", "      integral = state.integral + error;")]},
-    {"id": "slot-without-step", "group": "C", "expect": ("R-TABLE", "slot-step"),
+    {"id": "slot-without-step", "group": "C", "expect": ("R-TABLE", "pid:state-slot:"),
      "edits": [(PID_TU, "/ m->opt.timestep;\n      ++state_idx;\n    }\n    if (config_.slew_max.has_value()) {",
                 "/ m->opt.timestep;\n    }\n    if (config_.slew_max.has_value()) {")]},
     {"id": "drop-integral-clip-compute", "group": "C", "expect": ("R-MUSTPASS", "Pid::Compute:integral-clip"),
@@ -1640,6 +3381,86 @@ MUTANTS += [
                (PID_TU, _ACTDOT_BLOCK, _ACTDOT_CALL), (PID_TU, _COMPUTE_BLOCK, _COMPUTE_CALL)]},
     {"id": "slew-return-clip-wrong-bound", "group": "I", "expect": ("R-MUSTPASS", "Pid::GetCtrl:slew-limit"),
      "edits": [(PID_TU, _SLEW, _SLEW_EARLY % "ctrl_min")]},
+]
+
+
+# ---- the activation-slot layout (R-TABLE): the stored seed C51-pid-slew-slot-alias and equivalent reshapes of the
+#      index arithmetic (helpers, locals, State fields instead of d->act re-reads) as controls
+_HASSLEW = ("bool HasSlew(const mjModel* m, int instance) {\n"
+            "  return ReadOptionalDoubleAttr(m, instance, kAttrSlewMax).has_value();\n}\n")
+_GETSTATE_HEAD = "  State state;\n  int state_idx = m->actuator_actadr[actuator_idx];\n"
+_ACTDOT_IDX = "    int state_idx = m->actuator_actadr[actuator_idx];\n    if (config_.i_gain) {\n      mjtNum integral"
+_ACTDOT_I_WRITE = ("      d->act_dot[state_idx] = (integral - d->act[state_idx]) / m->opt.timestep;\n"
+                   "      ++state_idx;\n")
+_ACTDOT_S_WRITE = ("      d->act_dot[state_idx] = (ctrl - d->act[state_idx]) / m->opt.timestep;\n"
+                   "      ++state_idx;\n")
+_ADR_HELPERS_LAST = ("\nint IntegralAdr(const mjModel* m, int actuator_id) {\n  return m->actuator_actadr[actuator_id];\n}\n"
+                     "\nint SlewAdr(const mjModel* m, int actuator_id) {\n"
+                     "  return m->actuator_actadr[actuator_id] + m->actuator_actnum[actuator_id] - 1;\n}\n")
+_ADR_HELPERS_OK = ("\nint IntegralAdr(const mjModel* m, int actuator_id) {\n  return m->actuator_actadr[actuator_id];\n}\n"
+                   "\nint SlewAdr(const PidConfig& config, const mjModel* m, int actuator_id) {\n"
+                   "  int adr = IntegralAdr(m, actuator_id);\n  if (config.i_gain) {\n    adr++;\n  }\n  return adr;\n}\n")
+_OWN1 = "m->actuator_actadr[actuator_idx] + 1"
+MUTANTS += [
+    # the stored seed: the slew state moved to the LAST slot of the block (the native slot when dyntype != none)
+    {"id": "slew-state-in-last-slot", "group": "K", "expect": ("R-TABLE", "pid:state-slot:previous_ctrl"),
+     "edits": [(PID_TU, _HASSLEW, _HASSLEW + _ADR_HELPERS_LAST),
+               (PID_TU, _GETSTATE_HEAD, "  State state;\n"),
+               (PID_TU, "    state.integral = d->act[state_idx++];", "    state.integral = d->act[IntegralAdr(m, actuator_idx)];"),
+               (PID_TU, "    state.previous_ctrl = d->act[state_idx++];",
+                "    state.previous_ctrl = d->act[SlewAdr(m, actuator_idx)];"),
+               (PID_TU, _ACTDOT_IDX, "    if (config_.i_gain) {\n      mjtNum integral"),
+               (PID_TU, _ACTDOT_I_WRITE,
+                "      d->act_dot[IntegralAdr(m, actuator_idx)] = (integral - state.integral) / m->opt.timestep;\n"),
+               (PID_TU, _ACTDOT_S_WRITE,
+                "      d->act_dot[SlewAdr(m, actuator_idx)] = (ctrl - state.previous_ctrl) / m->opt.timestep;\n")]},
+    # the same reshapes with the documented layout: helper with a running local and an early-exit free body in GetState,
+    # named locals and State fields in ActDot
+    {"id": "slot-helpers-in-getstate", "group": "L", "expect": None,
+     "edits": [(PID_TU, _HASSLEW, _HASSLEW + _ADR_HELPERS_OK),
+               (PID_TU, _GETSTATE_HEAD, "  State state;\n"),
+               (PID_TU, "    state.integral = d->act[state_idx++];", "    state.integral = d->act[IntegralAdr(m, actuator_idx)];"),
+               (PID_TU, "    state.previous_ctrl = d->act[state_idx++];",
+                "    state.previous_ctrl = d->act[SlewAdr(config_, m, actuator_idx)];")]},
+    {"id": "slot-locals-in-actdot", "group": "L", "expect": None,
+     "edits": [(PID_TU, _ACTDOT_IDX,
+                "    const int integral_adr = m->actuator_actadr[actuator_idx];\n"
+                "    const int slew_adr = config_.i_gain ? integral_adr + 1 : integral_adr;\n"
+                "    if (config_.i_gain) {\n      mjtNum integral"),
+               (PID_TU, _ACTDOT_I_WRITE,
+                "      d->act_dot[integral_adr] = (integral - state.integral) / m->opt.timestep;\n"),
+               (PID_TU, _ACTDOT_S_WRITE,
+                "      d->act_dot[slew_adr] = (ctrl - state.previous_ctrl) / m->opt.timestep;\n")]},
+    # the slew state at a fixed offset 1: outside the own slots when the integral state is disabled
+    {"id": "slew-state-at-fixed-offset", "group": "M", "expect": ("R-TABLE", "pid:state-slot:previous_ctrl"),
+     "edits": [(PID_TU, "    state.previous_ctrl = d->act[state_idx++];", f"    state.previous_ctrl = d->act[{_OWN1}];"),
+               (PID_TU, _ACTDOT_S_WRITE,
+                f"      d->act_dot[{_OWN1}] = (ctrl - d->act[{_OWN1}]) / m->opt.timestep;\n")]},
+]
+
+
+# ---- the cable's curvature difference (R-BOUNDS-AGREE): the stored seed C51-cable-curvature-unwrapped, and equivalent
+#      hand-written rotation vectors as controls
+_QUAT2VEL = "  mjtNum omega[3];\n\n  // compute curvature\n  mju_quat2Vel(omega, quat, 1.0);\n"
+MUTANTS += [
+    {"id": "cable-curvature-unwrapped", "group": "K", "expect": ("R-BOUNDS-AGREE", "LocalStress:difference"),
+     "edits": [(CABLE_TU, _QUAT2VEL,
+                "  mjtNum omega[3] = {quat[1], quat[2], quat[3]};\n  mjtNum sin_a_2 = mju_normalize3(omega);\n"
+                "  mju_scl3(omega, omega, 2 * mju_atan2(sin_a_2, quat[0]));\n")]},
+    {"id": "cable-curvature-double-rate", "group": "M", "expect": ("R-BOUNDS-AGREE", "LocalStress:difference"),
+     "edits": [(CABLE_TU, "  mju_quat2Vel(omega, quat, 1.0);\n", "  mju_quat2Vel(omega, quat, 0.5);\n")]},
+    # the same map written out by hand, with the wrap as a mirrored comparison and a plain assignment
+    {"id": "cable-curvature-by-hand-wrapped", "group": "L", "expect": None,
+     "edits": [(CABLE_TU, _QUAT2VEL,
+                "  mjtNum omega[3] = {quat[1], quat[2], quat[3]};\n  mjtNum sin_half = mju_normalize3(omega);\n"
+                "  mjtNum angle = 2 * mju_atan2(sin_half, quat[0]);\n  if (mjPI < angle) {\n    angle = angle - 2*mjPI;\n  }\n"
+                "  mju_scl3(omega, omega, angle);\n")]},
+    # ... and through the q / -q flip instead of the wrap
+    {"id": "cable-curvature-by-hand-flipped", "group": "H", "expect": None,
+     "edits": [(CABLE_TU, _QUAT2VEL,
+                "  mjtNum w = quat[0];\n  mjtNum omega[3] = {quat[1], quat[2], quat[3]};\n"
+                "  mjtNum s = mju_normalize3(omega);\n  mjtNum sign = 1;\n  if (w < 0) { w = -w; sign = -1; }\n"
+                "  mju_scl3(omega, omega, sign * 2 * mju_atan2(s, w));\n")]},
 ]
 
 
